@@ -1,4 +1,5 @@
 import PysphVerif.Lemmas.PairSym
+import Mathlib.Tactic.FieldSimp
 /-!
 # C09 — pair-symmetric momentum equations conserve linear and angular momentum
 
@@ -33,6 +34,15 @@ namespace PysphVerif.C09
 open PysphVerif.PairSym PysphVerif.Gen.C09
 
 variable {K : Type} [Field K] [LinearOrder K] [IsStrictOrderedRing K]
+
+/-- close a goal that is a rational identity on every branch of the (symmetric)
+conditions; `field_simp` cancels the masses assumed non-zero -/
+macro "c09_closeF" : tactic =>
+  `(tactic| first
+    | (split_ifs <;> (try simp only [neg_div, neg_mul, mul_neg, neg_neg] at *) <;>
+        first | contradiction | ring1 | (field_simp; done) | (field_simp; ring1) | (ring_nf; done)
+              | (exfalso; linarith))
+    | ring1 | (field_simp; done) | (field_simp; ring1) | (ring_nf; done))
 
 /-! ## general statements -/
 
@@ -75,7 +85,7 @@ theorem torque_zero_of_central {ι : Type} [Fintype ι] [DecidableEq ι]
           torque_component_zero nbr hsymm Z X FZ FX hZ hX ?_⟩ <;>
   · intro i j hj
     obtain ⟨c, h1, h2, h3⟩ := hc i j hj
-    rw [h1, h2, h3]; ring
+    simp only [h1, h2, h3]; ring
 
 /-- `DWIJ(a,b) = −DWIJ(b,a)`: `HIJ` is the (symmetric) mean smoothing length,
 `XIJ` changes sign, `RIJ` does not, and the gradient is `g(r,h)·x`. -/
@@ -131,8 +141,8 @@ theorem additive_WC_MomentumEquation (acc acc' : Out_WC_MomentumEquation K) (a b
     c09_norm
     c09_close
 
-/-- `m_a · contrib(a, b) = −(m_b · contrib(b, a))`, component by component -/
 include hk in
+/-- `m_a · contrib(a, b) = −(m_b · contrib(b, a))`, component by component -/
 theorem pair_antisym_WC_MomentumEquation (acc acc' : Out_WC_MomentumEquation K) (a b : P K) :
     a.m * ((pair_WC_MomentumEquation o k self_alpha self_beta self_c0 self_tensile_correction acc a b).d_au - acc.d_au) = -(b.m * ((pair_WC_MomentumEquation o k self_alpha self_beta self_c0 self_tensile_correction acc' b a).d_au - acc'.d_au)) ∧
     a.m * ((pair_WC_MomentumEquation o k self_alpha self_beta self_c0 self_tensile_correction acc a b).d_av - acc.d_av) = -(b.m * ((pair_WC_MomentumEquation o k self_alpha self_beta self_c0 self_tensile_correction acc' b a).d_av - acc'.d_av)) ∧
@@ -145,8 +155,8 @@ theorem pair_antisym_WC_MomentumEquation (acc acc' : Out_WC_MomentumEquation K) 
     c09_norm
     c09_close
 
-/-- the pair contribution is parallel to the separation `x_a − x_b` (cross product zero) -/
 include hk in
+/-- the pair contribution is parallel to the separation `x_a − x_b` (cross product zero) -/
 theorem central_WC_MomentumEquation (acc : Out_WC_MomentumEquation K) (a b : P K) :
     (a.x - b.x) * ((pair_WC_MomentumEquation o k self_alpha self_beta self_c0 self_tensile_correction acc a b).d_av - acc.d_av) = (a.y - b.y) * ((pair_WC_MomentumEquation o k self_alpha self_beta self_c0 self_tensile_correction acc a b).d_au - acc.d_au) ∧
     (a.y - b.y) * ((pair_WC_MomentumEquation o k self_alpha self_beta self_c0 self_tensile_correction acc a b).d_aw - acc.d_aw) = (a.z - b.z) * ((pair_WC_MomentumEquation o k self_alpha self_beta self_c0 self_tensile_correction acc a b).d_av - acc.d_av) ∧
@@ -159,9 +169,9 @@ theorem central_WC_MomentumEquation (acc : Out_WC_MomentumEquation K) (a b : P K
     c09_norm
     c09_close
 
+include hk in
 /-- closed system: evaluating the equation for every particle over a symmetric neighbour relation
 gives `Σ m a = 0` -/
-include hk in
 theorem linear_momentum_WC_MomentumEquation {ι : Type} [Fintype ι] [DecidableEq ι] (p : ι → P K)
     (nbrs : ι → List ι) (hnd : ∀ i, (nbrs i).Nodup) (hsymm : ∀ i j, j ∈ nbrs i → i ∈ nbrs j)
     (init : ι → Out_WC_MomentumEquation K) (hinit : ∀ i, (init i).d_au = 0 ∧ (init i).d_av = 0 ∧ (init i).d_aw = 0) :
@@ -182,8 +192,8 @@ theorem linear_momentum_WC_MomentumEquation {ι : Type} [Fintype ι] [DecidableE
       (fun i j acc acc' => (additive_WC_MomentumEquation o k self_alpha self_beta self_c0 self_tensile_correction acc acc' (p i) (p j)).2.2)
       (fun i j acc acc' => (pair_antisym_WC_MomentumEquation o k hk self_alpha self_beta self_c0 self_tensile_correction acc acc' (p i) (p j)).2.2)
 
-/-- closed system: `Σ m x × a = 0` (three components) -/
 include hk in
+/-- closed system: `Σ m x × a = 0` (three components) -/
 theorem angular_momentum_WC_MomentumEquation {ι : Type} [Fintype ι] [DecidableEq ι] (p : ι → P K)
     (nbrs : ι → List ι) (hnd : ∀ i, (nbrs i).Nodup) (hsymm : ∀ i j, j ∈ nbrs i → i ∈ nbrs j)
     (init : ι → Out_WC_MomentumEquation K) (hinit : ∀ i, (init i).d_au = 0 ∧ (init i).d_av = 0 ∧ (init i).d_aw = 0) :
@@ -234,8 +244,8 @@ theorem additive_WC_MomentumEquationDeltaSPH (acc acc' : Out_WC_MomentumEquation
     c09_norm
     c09_close
 
-/-- `m_a · contrib(a, b) = −(m_b · contrib(b, a))`, component by component -/
 include hk in
+/-- `m_a · contrib(a, b) = −(m_b · contrib(b, a))`, component by component -/
 theorem pair_antisym_WC_MomentumEquationDeltaSPH (acc acc' : Out_WC_MomentumEquationDeltaSPH K) (a b : P K) :
     a.m * ((pair_WC_MomentumEquationDeltaSPH o k self_alpha self_c0 self_rho0 acc a b).d_au - acc.d_au) = -(b.m * ((pair_WC_MomentumEquationDeltaSPH o k self_alpha self_c0 self_rho0 acc' b a).d_au - acc'.d_au)) ∧
     a.m * ((pair_WC_MomentumEquationDeltaSPH o k self_alpha self_c0 self_rho0 acc a b).d_av - acc.d_av) = -(b.m * ((pair_WC_MomentumEquationDeltaSPH o k self_alpha self_c0 self_rho0 acc' b a).d_av - acc'.d_av)) ∧
@@ -248,8 +258,8 @@ theorem pair_antisym_WC_MomentumEquationDeltaSPH (acc acc' : Out_WC_MomentumEqua
     c09_norm
     c09_close
 
-/-- the pair contribution is parallel to the separation `x_a − x_b` (cross product zero) -/
 include hk in
+/-- the pair contribution is parallel to the separation `x_a − x_b` (cross product zero) -/
 theorem central_WC_MomentumEquationDeltaSPH (acc : Out_WC_MomentumEquationDeltaSPH K) (a b : P K) :
     (a.x - b.x) * ((pair_WC_MomentumEquationDeltaSPH o k self_alpha self_c0 self_rho0 acc a b).d_av - acc.d_av) = (a.y - b.y) * ((pair_WC_MomentumEquationDeltaSPH o k self_alpha self_c0 self_rho0 acc a b).d_au - acc.d_au) ∧
     (a.y - b.y) * ((pair_WC_MomentumEquationDeltaSPH o k self_alpha self_c0 self_rho0 acc a b).d_aw - acc.d_aw) = (a.z - b.z) * ((pair_WC_MomentumEquationDeltaSPH o k self_alpha self_c0 self_rho0 acc a b).d_av - acc.d_av) ∧
@@ -262,9 +272,9 @@ theorem central_WC_MomentumEquationDeltaSPH (acc : Out_WC_MomentumEquationDeltaS
     c09_norm
     c09_close
 
+include hk in
 /-- closed system: evaluating the equation for every particle over a symmetric neighbour relation
 gives `Σ m a = 0` -/
-include hk in
 theorem linear_momentum_WC_MomentumEquationDeltaSPH {ι : Type} [Fintype ι] [DecidableEq ι] (p : ι → P K)
     (nbrs : ι → List ι) (hnd : ∀ i, (nbrs i).Nodup) (hsymm : ∀ i j, j ∈ nbrs i → i ∈ nbrs j)
     (init : ι → Out_WC_MomentumEquationDeltaSPH K) (hinit : ∀ i, (init i).d_au = 0 ∧ (init i).d_av = 0 ∧ (init i).d_aw = 0) :
@@ -285,8 +295,8 @@ theorem linear_momentum_WC_MomentumEquationDeltaSPH {ι : Type} [Fintype ι] [De
       (fun i j acc acc' => (additive_WC_MomentumEquationDeltaSPH o k self_alpha self_c0 self_rho0 acc acc' (p i) (p j)).2.2)
       (fun i j acc acc' => (pair_antisym_WC_MomentumEquationDeltaSPH o k hk self_alpha self_c0 self_rho0 acc acc' (p i) (p j)).2.2)
 
-/-- closed system: `Σ m x × a = 0` (three components) -/
 include hk in
+/-- closed system: `Σ m x × a = 0` (three components) -/
 theorem angular_momentum_WC_MomentumEquationDeltaSPH {ι : Type} [Fintype ι] [DecidableEq ι] (p : ι → P K)
     (nbrs : ι → List ι) (hnd : ∀ i, (nbrs i).Nodup) (hsymm : ∀ i j, j ∈ nbrs i → i ∈ nbrs j)
     (init : ι → Out_WC_MomentumEquationDeltaSPH K) (hinit : ∀ i, (init i).d_au = 0 ∧ (init i).d_av = 0 ∧ (init i).d_aw = 0) :
@@ -337,9 +347,9 @@ theorem additive_WC_PressureGradientUsingNumberDensity (acc acc' : Out_WC_Pressu
     c09_norm
     c09_close
 
-/-- `m_a · contrib(a, b) = −(m_b · contrib(b, a))`, component by component -/
 include hk in
-theorem pair_antisym_WC_PressureGradientUsingNumberDensity (acc acc' : Out_WC_PressureGradientUsingNumberDensity K) (a b : P K) :
+/-- `m_a · contrib(a, b) = −(m_b · contrib(b, a))`, component by component (the body divides by the destination mass: masses non-zero) -/
+theorem pair_antisym_WC_PressureGradientUsingNumberDensity (acc acc' : Out_WC_PressureGradientUsingNumberDensity K) (a b : P K) (ha : a.m ≠ 0) (hb : b.m ≠ 0) :
     a.m * ((pair_WC_PressureGradientUsingNumberDensity o k  acc a b).d_au - acc.d_au) = -(b.m * ((pair_WC_PressureGradientUsingNumberDensity o k  acc' b a).d_au - acc'.d_au)) ∧
     a.m * ((pair_WC_PressureGradientUsingNumberDensity o k  acc a b).d_av - acc.d_av) = -(b.m * ((pair_WC_PressureGradientUsingNumberDensity o k  acc' b a).d_av - acc'.d_av)) ∧
     a.m * ((pair_WC_PressureGradientUsingNumberDensity o k  acc a b).d_aw - acc.d_aw) = -(b.m * ((pair_WC_PressureGradientUsingNumberDensity o k  acc' b a).d_aw - acc'.d_aw)) := by
@@ -349,10 +359,10 @@ theorem pair_antisym_WC_PressureGradientUsingNumberDensity (acc acc' : Out_WC_Pr
     c09_atoms o k a b
     simp only [loop_WC_PressureGradientUsingNumberDensity]
     c09_norm
-    c09_close
+    c09_closeF
 
-/-- the pair contribution is parallel to the separation `x_a − x_b` (cross product zero) -/
 include hk in
+/-- the pair contribution is parallel to the separation `x_a − x_b` (cross product zero) -/
 theorem central_WC_PressureGradientUsingNumberDensity (acc : Out_WC_PressureGradientUsingNumberDensity K) (a b : P K) :
     (a.x - b.x) * ((pair_WC_PressureGradientUsingNumberDensity o k  acc a b).d_av - acc.d_av) = (a.y - b.y) * ((pair_WC_PressureGradientUsingNumberDensity o k  acc a b).d_au - acc.d_au) ∧
     (a.y - b.y) * ((pair_WC_PressureGradientUsingNumberDensity o k  acc a b).d_aw - acc.d_aw) = (a.z - b.z) * ((pair_WC_PressureGradientUsingNumberDensity o k  acc a b).d_av - acc.d_av) ∧
@@ -365,12 +375,12 @@ theorem central_WC_PressureGradientUsingNumberDensity (acc : Out_WC_PressureGrad
     c09_norm
     c09_close
 
+include hk in
 /-- closed system: evaluating the equation for every particle over a symmetric neighbour relation
 gives `Σ m a = 0` -/
-include hk in
 theorem linear_momentum_WC_PressureGradientUsingNumberDensity {ι : Type} [Fintype ι] [DecidableEq ι] (p : ι → P K)
     (nbrs : ι → List ι) (hnd : ∀ i, (nbrs i).Nodup) (hsymm : ∀ i j, j ∈ nbrs i → i ∈ nbrs j)
-    (init : ι → Out_WC_PressureGradientUsingNumberDensity K) (hinit : ∀ i, (init i).d_au = 0 ∧ (init i).d_av = 0 ∧ (init i).d_aw = 0) :
+    (init : ι → Out_WC_PressureGradientUsingNumberDensity K) (hinit : ∀ i, (init i).d_au = 0 ∧ (init i).d_av = 0 ∧ (init i).d_aw = 0) (hm : ∀ i, (p i).m ≠ 0) :
     ∑ i, (p i).m * ((nbrs i).foldl (fun acc j => pair_WC_PressureGradientUsingNumberDensity o k  acc (p i) (p j)) (init i)).d_au = 0 ∧
     ∑ i, (p i).m * ((nbrs i).foldl (fun acc j => pair_WC_PressureGradientUsingNumberDensity o k  acc (p i) (p j)) (init i)).d_av = 0 ∧
     ∑ i, (p i).m * ((nbrs i).foldl (fun acc j => pair_WC_PressureGradientUsingNumberDensity o k  acc (p i) (p j)) (init i)).d_aw = 0 := by
@@ -378,21 +388,21 @@ theorem linear_momentum_WC_PressureGradientUsingNumberDensity {ι : Type} [Finty
   · exact linear_momentum_of_pair (fun i => (p i).m) nbrs hnd hsymm (fun i acc j => pair_WC_PressureGradientUsingNumberDensity o k  acc (p i) (p j))
       (fun s => s.d_au) init (fun i => (hinit i).1)
       (fun i j acc acc' => (additive_WC_PressureGradientUsingNumberDensity o k  acc acc' (p i) (p j)).1)
-      (fun i j acc acc' => (pair_antisym_WC_PressureGradientUsingNumberDensity o k hk  acc acc' (p i) (p j)).1)
+      (fun i j acc acc' => (pair_antisym_WC_PressureGradientUsingNumberDensity o k hk  acc acc' (p i) (p j) (hm i) (hm j)).1)
   · exact linear_momentum_of_pair (fun i => (p i).m) nbrs hnd hsymm (fun i acc j => pair_WC_PressureGradientUsingNumberDensity o k  acc (p i) (p j))
       (fun s => s.d_av) init (fun i => (hinit i).2.1)
       (fun i j acc acc' => (additive_WC_PressureGradientUsingNumberDensity o k  acc acc' (p i) (p j)).2.1)
-      (fun i j acc acc' => (pair_antisym_WC_PressureGradientUsingNumberDensity o k hk  acc acc' (p i) (p j)).2.1)
+      (fun i j acc acc' => (pair_antisym_WC_PressureGradientUsingNumberDensity o k hk  acc acc' (p i) (p j) (hm i) (hm j)).2.1)
   · exact linear_momentum_of_pair (fun i => (p i).m) nbrs hnd hsymm (fun i acc j => pair_WC_PressureGradientUsingNumberDensity o k  acc (p i) (p j))
       (fun s => s.d_aw) init (fun i => (hinit i).2.2)
       (fun i j acc acc' => (additive_WC_PressureGradientUsingNumberDensity o k  acc acc' (p i) (p j)).2.2)
-      (fun i j acc acc' => (pair_antisym_WC_PressureGradientUsingNumberDensity o k hk  acc acc' (p i) (p j)).2.2)
+      (fun i j acc acc' => (pair_antisym_WC_PressureGradientUsingNumberDensity o k hk  acc acc' (p i) (p j) (hm i) (hm j)).2.2)
 
-/-- closed system: `Σ m x × a = 0` (three components) -/
 include hk in
+/-- closed system: `Σ m x × a = 0` (three components) -/
 theorem angular_momentum_WC_PressureGradientUsingNumberDensity {ι : Type} [Fintype ι] [DecidableEq ι] (p : ι → P K)
     (nbrs : ι → List ι) (hnd : ∀ i, (nbrs i).Nodup) (hsymm : ∀ i j, j ∈ nbrs i → i ∈ nbrs j)
-    (init : ι → Out_WC_PressureGradientUsingNumberDensity K) (hinit : ∀ i, (init i).d_au = 0 ∧ (init i).d_av = 0 ∧ (init i).d_aw = 0) :
+    (init : ι → Out_WC_PressureGradientUsingNumberDensity K) (hinit : ∀ i, (init i).d_au = 0 ∧ (init i).d_av = 0 ∧ (init i).d_aw = 0) (hm : ∀ i, (p i).m ≠ 0) :
     (∑ i, (p i).m * ((p i).x * ((nbrs i).foldl (fun acc j => pair_WC_PressureGradientUsingNumberDensity o k  acc (p i) (p j)) (init i)).d_av - (p i).y * ((nbrs i).foldl (fun acc j => pair_WC_PressureGradientUsingNumberDensity o k  acc (p i) (p j)) (init i)).d_au) = 0) ∧
     (∑ i, (p i).m * ((p i).y * ((nbrs i).foldl (fun acc j => pair_WC_PressureGradientUsingNumberDensity o k  acc (p i) (p j)) (init i)).d_aw - (p i).z * ((nbrs i).foldl (fun acc j => pair_WC_PressureGradientUsingNumberDensity o k  acc (p i) (p j)) (init i)).d_av) = 0) ∧
     (∑ i, (p i).m * ((p i).z * ((nbrs i).foldl (fun acc j => pair_WC_PressureGradientUsingNumberDensity o k  acc (p i) (p j)) (init i)).d_au - (p i).x * ((nbrs i).foldl (fun acc j => pair_WC_PressureGradientUsingNumberDensity o k  acc (p i) (p j)) (init i)).d_aw) = 0) := by
@@ -402,24 +412,24 @@ theorem angular_momentum_WC_PressureGradientUsingNumberDensity {ι : Type} [Fint
       (fun i => (hinit i).1) (fun i => (hinit i).2.1)
       (fun i j acc acc' => (additive_WC_PressureGradientUsingNumberDensity o k  acc acc' (p i) (p j)).1)
       (fun i j acc acc' => (additive_WC_PressureGradientUsingNumberDensity o k  acc acc' (p i) (p j)).2.1)
-      (fun i j acc acc' => (pair_antisym_WC_PressureGradientUsingNumberDensity o k hk  acc acc' (p i) (p j)).1)
-      (fun i j acc acc' => (pair_antisym_WC_PressureGradientUsingNumberDensity o k hk  acc acc' (p i) (p j)).2.1)
+      (fun i j acc acc' => (pair_antisym_WC_PressureGradientUsingNumberDensity o k hk  acc acc' (p i) (p j) (hm i) (hm j)).1)
+      (fun i j acc acc' => (pair_antisym_WC_PressureGradientUsingNumberDensity o k hk  acc acc' (p i) (p j) (hm i) (hm j)).2.1)
       (fun i j acc => (central_WC_PressureGradientUsingNumberDensity o k hk  acc (p i) (p j)).1)
   · exact angular_momentum_of_pair (fun i => (p i).m) (fun i => (p i).y) (fun i => (p i).z) nbrs hnd hsymm
       (fun i acc j => pair_WC_PressureGradientUsingNumberDensity o k  acc (p i) (p j)) (fun s => s.d_av) (fun s => s.d_aw) init
       (fun i => (hinit i).2.1) (fun i => (hinit i).2.2)
       (fun i j acc acc' => (additive_WC_PressureGradientUsingNumberDensity o k  acc acc' (p i) (p j)).2.1)
       (fun i j acc acc' => (additive_WC_PressureGradientUsingNumberDensity o k  acc acc' (p i) (p j)).2.2)
-      (fun i j acc acc' => (pair_antisym_WC_PressureGradientUsingNumberDensity o k hk  acc acc' (p i) (p j)).2.1)
-      (fun i j acc acc' => (pair_antisym_WC_PressureGradientUsingNumberDensity o k hk  acc acc' (p i) (p j)).2.2)
+      (fun i j acc acc' => (pair_antisym_WC_PressureGradientUsingNumberDensity o k hk  acc acc' (p i) (p j) (hm i) (hm j)).2.1)
+      (fun i j acc acc' => (pair_antisym_WC_PressureGradientUsingNumberDensity o k hk  acc acc' (p i) (p j) (hm i) (hm j)).2.2)
       (fun i j acc => (central_WC_PressureGradientUsingNumberDensity o k hk  acc (p i) (p j)).2.1)
   · exact angular_momentum_of_pair (fun i => (p i).m) (fun i => (p i).z) (fun i => (p i).x) nbrs hnd hsymm
       (fun i acc j => pair_WC_PressureGradientUsingNumberDensity o k  acc (p i) (p j)) (fun s => s.d_aw) (fun s => s.d_au) init
       (fun i => (hinit i).2.2) (fun i => (hinit i).1)
       (fun i j acc acc' => (additive_WC_PressureGradientUsingNumberDensity o k  acc acc' (p i) (p j)).2.2)
       (fun i j acc acc' => (additive_WC_PressureGradientUsingNumberDensity o k  acc acc' (p i) (p j)).1)
-      (fun i j acc acc' => (pair_antisym_WC_PressureGradientUsingNumberDensity o k hk  acc acc' (p i) (p j)).2.2)
-      (fun i j acc acc' => (pair_antisym_WC_PressureGradientUsingNumberDensity o k hk  acc acc' (p i) (p j)).1)
+      (fun i j acc acc' => (pair_antisym_WC_PressureGradientUsingNumberDensity o k hk  acc acc' (p i) (p j) (hm i) (hm j)).2.2)
+      (fun i j acc acc' => (pair_antisym_WC_PressureGradientUsingNumberDensity o k hk  acc acc' (p i) (p j) (hm i) (hm j)).1)
       (fun i j acc => (central_WC_PressureGradientUsingNumberDensity o k hk  acc (p i) (p j)).2.2)
 
 end WC_PressureGradientUsingNumberDensity
@@ -440,8 +450,8 @@ theorem additive_BE_MonaghanArtificialViscosity (acc acc' : Out_BE_MonaghanArtif
     c09_norm
     c09_close
 
-/-- `m_a · contrib(a, b) = −(m_b · contrib(b, a))`, component by component -/
 include hk in
+/-- `m_a · contrib(a, b) = −(m_b · contrib(b, a))`, component by component -/
 theorem pair_antisym_BE_MonaghanArtificialViscosity (acc acc' : Out_BE_MonaghanArtificialViscosity K) (a b : P K) :
     a.m * ((pair_BE_MonaghanArtificialViscosity o k self_alpha self_beta acc a b).d_au - acc.d_au) = -(b.m * ((pair_BE_MonaghanArtificialViscosity o k self_alpha self_beta acc' b a).d_au - acc'.d_au)) ∧
     a.m * ((pair_BE_MonaghanArtificialViscosity o k self_alpha self_beta acc a b).d_av - acc.d_av) = -(b.m * ((pair_BE_MonaghanArtificialViscosity o k self_alpha self_beta acc' b a).d_av - acc'.d_av)) ∧
@@ -454,8 +464,8 @@ theorem pair_antisym_BE_MonaghanArtificialViscosity (acc acc' : Out_BE_MonaghanA
     c09_norm
     c09_close
 
-/-- the pair contribution is parallel to the separation `x_a − x_b` (cross product zero) -/
 include hk in
+/-- the pair contribution is parallel to the separation `x_a − x_b` (cross product zero) -/
 theorem central_BE_MonaghanArtificialViscosity (acc : Out_BE_MonaghanArtificialViscosity K) (a b : P K) :
     (a.x - b.x) * ((pair_BE_MonaghanArtificialViscosity o k self_alpha self_beta acc a b).d_av - acc.d_av) = (a.y - b.y) * ((pair_BE_MonaghanArtificialViscosity o k self_alpha self_beta acc a b).d_au - acc.d_au) ∧
     (a.y - b.y) * ((pair_BE_MonaghanArtificialViscosity o k self_alpha self_beta acc a b).d_aw - acc.d_aw) = (a.z - b.z) * ((pair_BE_MonaghanArtificialViscosity o k self_alpha self_beta acc a b).d_av - acc.d_av) ∧
@@ -468,9 +478,9 @@ theorem central_BE_MonaghanArtificialViscosity (acc : Out_BE_MonaghanArtificialV
     c09_norm
     c09_close
 
+include hk in
 /-- closed system: evaluating the equation for every particle over a symmetric neighbour relation
 gives `Σ m a = 0` -/
-include hk in
 theorem linear_momentum_BE_MonaghanArtificialViscosity {ι : Type} [Fintype ι] [DecidableEq ι] (p : ι → P K)
     (nbrs : ι → List ι) (hnd : ∀ i, (nbrs i).Nodup) (hsymm : ∀ i j, j ∈ nbrs i → i ∈ nbrs j)
     (init : ι → Out_BE_MonaghanArtificialViscosity K) (hinit : ∀ i, (init i).d_au = 0 ∧ (init i).d_av = 0 ∧ (init i).d_aw = 0) :
@@ -491,8 +501,8 @@ theorem linear_momentum_BE_MonaghanArtificialViscosity {ι : Type} [Fintype ι] 
       (fun i j acc acc' => (additive_BE_MonaghanArtificialViscosity o k self_alpha self_beta acc acc' (p i) (p j)).2.2)
       (fun i j acc acc' => (pair_antisym_BE_MonaghanArtificialViscosity o k hk self_alpha self_beta acc acc' (p i) (p j)).2.2)
 
-/-- closed system: `Σ m x × a = 0` (three components) -/
 include hk in
+/-- closed system: `Σ m x × a = 0` (three components) -/
 theorem angular_momentum_BE_MonaghanArtificialViscosity {ι : Type} [Fintype ι] [DecidableEq ι] (p : ι → P K)
     (nbrs : ι → List ι) (hnd : ∀ i, (nbrs i).Nodup) (hsymm : ∀ i j, j ∈ nbrs i → i ∈ nbrs j)
     (init : ι → Out_BE_MonaghanArtificialViscosity K) (hinit : ∀ i, (init i).d_au = 0 ∧ (init i).d_av = 0 ∧ (init i).d_aw = 0) :
@@ -543,9 +553,9 @@ theorem additive_TV_MomentumEquationPressureGradient (acc acc' : Out_TV_Momentum
     c09_norm
     c09_close
 
-/-- `m_a · contrib(a, b) = −(m_b · contrib(b, a))`, component by component -/
 include hk in
-theorem pair_antisym_TV_MomentumEquationPressureGradient (acc acc' : Out_TV_MomentumEquationPressureGradient K) (a b : P K) :
+/-- `m_a · contrib(a, b) = −(m_b · contrib(b, a))`, component by component (the body divides by the destination mass: masses non-zero) -/
+theorem pair_antisym_TV_MomentumEquationPressureGradient (acc acc' : Out_TV_MomentumEquationPressureGradient K) (a b : P K) (ha : a.m ≠ 0) (hb : b.m ≠ 0) :
     a.m * ((pair_TV_MomentumEquationPressureGradient o k self_pb acc a b).d_au - acc.d_au) = -(b.m * ((pair_TV_MomentumEquationPressureGradient o k self_pb acc' b a).d_au - acc'.d_au)) ∧
     a.m * ((pair_TV_MomentumEquationPressureGradient o k self_pb acc a b).d_av - acc.d_av) = -(b.m * ((pair_TV_MomentumEquationPressureGradient o k self_pb acc' b a).d_av - acc'.d_av)) ∧
     a.m * ((pair_TV_MomentumEquationPressureGradient o k self_pb acc a b).d_aw - acc.d_aw) = -(b.m * ((pair_TV_MomentumEquationPressureGradient o k self_pb acc' b a).d_aw - acc'.d_aw)) := by
@@ -555,10 +565,10 @@ theorem pair_antisym_TV_MomentumEquationPressureGradient (acc acc' : Out_TV_Mome
     c09_atoms o k a b
     simp only [loop_TV_MomentumEquationPressureGradient]
     c09_norm
-    c09_close
+    c09_closeF
 
-/-- the pair contribution is parallel to the separation `x_a − x_b` (cross product zero) -/
 include hk in
+/-- the pair contribution is parallel to the separation `x_a − x_b` (cross product zero) -/
 theorem central_TV_MomentumEquationPressureGradient (acc : Out_TV_MomentumEquationPressureGradient K) (a b : P K) :
     (a.x - b.x) * ((pair_TV_MomentumEquationPressureGradient o k self_pb acc a b).d_av - acc.d_av) = (a.y - b.y) * ((pair_TV_MomentumEquationPressureGradient o k self_pb acc a b).d_au - acc.d_au) ∧
     (a.y - b.y) * ((pair_TV_MomentumEquationPressureGradient o k self_pb acc a b).d_aw - acc.d_aw) = (a.z - b.z) * ((pair_TV_MomentumEquationPressureGradient o k self_pb acc a b).d_av - acc.d_av) ∧
@@ -571,12 +581,12 @@ theorem central_TV_MomentumEquationPressureGradient (acc : Out_TV_MomentumEquati
     c09_norm
     c09_close
 
+include hk in
 /-- closed system: evaluating the equation for every particle over a symmetric neighbour relation
 gives `Σ m a = 0` -/
-include hk in
 theorem linear_momentum_TV_MomentumEquationPressureGradient {ι : Type} [Fintype ι] [DecidableEq ι] (p : ι → P K)
     (nbrs : ι → List ι) (hnd : ∀ i, (nbrs i).Nodup) (hsymm : ∀ i j, j ∈ nbrs i → i ∈ nbrs j)
-    (init : ι → Out_TV_MomentumEquationPressureGradient K) (hinit : ∀ i, (init i).d_au = 0 ∧ (init i).d_av = 0 ∧ (init i).d_aw = 0) :
+    (init : ι → Out_TV_MomentumEquationPressureGradient K) (hinit : ∀ i, (init i).d_au = 0 ∧ (init i).d_av = 0 ∧ (init i).d_aw = 0) (hm : ∀ i, (p i).m ≠ 0) :
     ∑ i, (p i).m * ((nbrs i).foldl (fun acc j => pair_TV_MomentumEquationPressureGradient o k self_pb acc (p i) (p j)) (init i)).d_au = 0 ∧
     ∑ i, (p i).m * ((nbrs i).foldl (fun acc j => pair_TV_MomentumEquationPressureGradient o k self_pb acc (p i) (p j)) (init i)).d_av = 0 ∧
     ∑ i, (p i).m * ((nbrs i).foldl (fun acc j => pair_TV_MomentumEquationPressureGradient o k self_pb acc (p i) (p j)) (init i)).d_aw = 0 := by
@@ -584,21 +594,21 @@ theorem linear_momentum_TV_MomentumEquationPressureGradient {ι : Type} [Fintype
   · exact linear_momentum_of_pair (fun i => (p i).m) nbrs hnd hsymm (fun i acc j => pair_TV_MomentumEquationPressureGradient o k self_pb acc (p i) (p j))
       (fun s => s.d_au) init (fun i => (hinit i).1)
       (fun i j acc acc' => (additive_TV_MomentumEquationPressureGradient o k self_pb acc acc' (p i) (p j)).1)
-      (fun i j acc acc' => (pair_antisym_TV_MomentumEquationPressureGradient o k hk self_pb acc acc' (p i) (p j)).1)
+      (fun i j acc acc' => (pair_antisym_TV_MomentumEquationPressureGradient o k hk self_pb acc acc' (p i) (p j) (hm i) (hm j)).1)
   · exact linear_momentum_of_pair (fun i => (p i).m) nbrs hnd hsymm (fun i acc j => pair_TV_MomentumEquationPressureGradient o k self_pb acc (p i) (p j))
       (fun s => s.d_av) init (fun i => (hinit i).2.1)
       (fun i j acc acc' => (additive_TV_MomentumEquationPressureGradient o k self_pb acc acc' (p i) (p j)).2.1)
-      (fun i j acc acc' => (pair_antisym_TV_MomentumEquationPressureGradient o k hk self_pb acc acc' (p i) (p j)).2.1)
+      (fun i j acc acc' => (pair_antisym_TV_MomentumEquationPressureGradient o k hk self_pb acc acc' (p i) (p j) (hm i) (hm j)).2.1)
   · exact linear_momentum_of_pair (fun i => (p i).m) nbrs hnd hsymm (fun i acc j => pair_TV_MomentumEquationPressureGradient o k self_pb acc (p i) (p j))
       (fun s => s.d_aw) init (fun i => (hinit i).2.2)
       (fun i j acc acc' => (additive_TV_MomentumEquationPressureGradient o k self_pb acc acc' (p i) (p j)).2.2)
-      (fun i j acc acc' => (pair_antisym_TV_MomentumEquationPressureGradient o k hk self_pb acc acc' (p i) (p j)).2.2)
+      (fun i j acc acc' => (pair_antisym_TV_MomentumEquationPressureGradient o k hk self_pb acc acc' (p i) (p j) (hm i) (hm j)).2.2)
 
-/-- closed system: `Σ m x × a = 0` (three components) -/
 include hk in
+/-- closed system: `Σ m x × a = 0` (three components) -/
 theorem angular_momentum_TV_MomentumEquationPressureGradient {ι : Type} [Fintype ι] [DecidableEq ι] (p : ι → P K)
     (nbrs : ι → List ι) (hnd : ∀ i, (nbrs i).Nodup) (hsymm : ∀ i j, j ∈ nbrs i → i ∈ nbrs j)
-    (init : ι → Out_TV_MomentumEquationPressureGradient K) (hinit : ∀ i, (init i).d_au = 0 ∧ (init i).d_av = 0 ∧ (init i).d_aw = 0) :
+    (init : ι → Out_TV_MomentumEquationPressureGradient K) (hinit : ∀ i, (init i).d_au = 0 ∧ (init i).d_av = 0 ∧ (init i).d_aw = 0) (hm : ∀ i, (p i).m ≠ 0) :
     (∑ i, (p i).m * ((p i).x * ((nbrs i).foldl (fun acc j => pair_TV_MomentumEquationPressureGradient o k self_pb acc (p i) (p j)) (init i)).d_av - (p i).y * ((nbrs i).foldl (fun acc j => pair_TV_MomentumEquationPressureGradient o k self_pb acc (p i) (p j)) (init i)).d_au) = 0) ∧
     (∑ i, (p i).m * ((p i).y * ((nbrs i).foldl (fun acc j => pair_TV_MomentumEquationPressureGradient o k self_pb acc (p i) (p j)) (init i)).d_aw - (p i).z * ((nbrs i).foldl (fun acc j => pair_TV_MomentumEquationPressureGradient o k self_pb acc (p i) (p j)) (init i)).d_av) = 0) ∧
     (∑ i, (p i).m * ((p i).z * ((nbrs i).foldl (fun acc j => pair_TV_MomentumEquationPressureGradient o k self_pb acc (p i) (p j)) (init i)).d_au - (p i).x * ((nbrs i).foldl (fun acc j => pair_TV_MomentumEquationPressureGradient o k self_pb acc (p i) (p j)) (init i)).d_aw) = 0) := by
@@ -608,24 +618,24 @@ theorem angular_momentum_TV_MomentumEquationPressureGradient {ι : Type} [Fintyp
       (fun i => (hinit i).1) (fun i => (hinit i).2.1)
       (fun i j acc acc' => (additive_TV_MomentumEquationPressureGradient o k self_pb acc acc' (p i) (p j)).1)
       (fun i j acc acc' => (additive_TV_MomentumEquationPressureGradient o k self_pb acc acc' (p i) (p j)).2.1)
-      (fun i j acc acc' => (pair_antisym_TV_MomentumEquationPressureGradient o k hk self_pb acc acc' (p i) (p j)).1)
-      (fun i j acc acc' => (pair_antisym_TV_MomentumEquationPressureGradient o k hk self_pb acc acc' (p i) (p j)).2.1)
+      (fun i j acc acc' => (pair_antisym_TV_MomentumEquationPressureGradient o k hk self_pb acc acc' (p i) (p j) (hm i) (hm j)).1)
+      (fun i j acc acc' => (pair_antisym_TV_MomentumEquationPressureGradient o k hk self_pb acc acc' (p i) (p j) (hm i) (hm j)).2.1)
       (fun i j acc => (central_TV_MomentumEquationPressureGradient o k hk self_pb acc (p i) (p j)).1)
   · exact angular_momentum_of_pair (fun i => (p i).m) (fun i => (p i).y) (fun i => (p i).z) nbrs hnd hsymm
       (fun i acc j => pair_TV_MomentumEquationPressureGradient o k self_pb acc (p i) (p j)) (fun s => s.d_av) (fun s => s.d_aw) init
       (fun i => (hinit i).2.1) (fun i => (hinit i).2.2)
       (fun i j acc acc' => (additive_TV_MomentumEquationPressureGradient o k self_pb acc acc' (p i) (p j)).2.1)
       (fun i j acc acc' => (additive_TV_MomentumEquationPressureGradient o k self_pb acc acc' (p i) (p j)).2.2)
-      (fun i j acc acc' => (pair_antisym_TV_MomentumEquationPressureGradient o k hk self_pb acc acc' (p i) (p j)).2.1)
-      (fun i j acc acc' => (pair_antisym_TV_MomentumEquationPressureGradient o k hk self_pb acc acc' (p i) (p j)).2.2)
+      (fun i j acc acc' => (pair_antisym_TV_MomentumEquationPressureGradient o k hk self_pb acc acc' (p i) (p j) (hm i) (hm j)).2.1)
+      (fun i j acc acc' => (pair_antisym_TV_MomentumEquationPressureGradient o k hk self_pb acc acc' (p i) (p j) (hm i) (hm j)).2.2)
       (fun i j acc => (central_TV_MomentumEquationPressureGradient o k hk self_pb acc (p i) (p j)).2.1)
   · exact angular_momentum_of_pair (fun i => (p i).m) (fun i => (p i).z) (fun i => (p i).x) nbrs hnd hsymm
       (fun i acc j => pair_TV_MomentumEquationPressureGradient o k self_pb acc (p i) (p j)) (fun s => s.d_aw) (fun s => s.d_au) init
       (fun i => (hinit i).2.2) (fun i => (hinit i).1)
       (fun i j acc acc' => (additive_TV_MomentumEquationPressureGradient o k self_pb acc acc' (p i) (p j)).2.2)
       (fun i j acc acc' => (additive_TV_MomentumEquationPressureGradient o k self_pb acc acc' (p i) (p j)).1)
-      (fun i j acc acc' => (pair_antisym_TV_MomentumEquationPressureGradient o k hk self_pb acc acc' (p i) (p j)).2.2)
-      (fun i j acc acc' => (pair_antisym_TV_MomentumEquationPressureGradient o k hk self_pb acc acc' (p i) (p j)).1)
+      (fun i j acc acc' => (pair_antisym_TV_MomentumEquationPressureGradient o k hk self_pb acc acc' (p i) (p j) (hm i) (hm j)).2.2)
+      (fun i j acc acc' => (pair_antisym_TV_MomentumEquationPressureGradient o k hk self_pb acc acc' (p i) (p j) (hm i) (hm j)).1)
       (fun i j acc => (central_TV_MomentumEquationPressureGradient o k hk self_pb acc (p i) (p j)).2.2)
 
 end TV_MomentumEquationPressureGradient
@@ -646,9 +656,9 @@ theorem additive_TV_MomentumEquationViscosity (acc acc' : Out_TV_MomentumEquatio
     c09_norm
     c09_close
 
-/-- `m_a · contrib(a, b) = −(m_b · contrib(b, a))`, component by component -/
 include hk in
-theorem pair_antisym_TV_MomentumEquationViscosity (acc acc' : Out_TV_MomentumEquationViscosity K) (a b : P K) :
+/-- `m_a · contrib(a, b) = −(m_b · contrib(b, a))`, component by component (the body divides by the destination mass: masses non-zero) -/
+theorem pair_antisym_TV_MomentumEquationViscosity (acc acc' : Out_TV_MomentumEquationViscosity K) (a b : P K) (ha : a.m ≠ 0) (hb : b.m ≠ 0) :
     a.m * ((pair_TV_MomentumEquationViscosity o k self_nu acc a b).d_au - acc.d_au) = -(b.m * ((pair_TV_MomentumEquationViscosity o k self_nu acc' b a).d_au - acc'.d_au)) ∧
     a.m * ((pair_TV_MomentumEquationViscosity o k self_nu acc a b).d_av - acc.d_av) = -(b.m * ((pair_TV_MomentumEquationViscosity o k self_nu acc' b a).d_av - acc'.d_av)) ∧
     a.m * ((pair_TV_MomentumEquationViscosity o k self_nu acc a b).d_aw - acc.d_aw) = -(b.m * ((pair_TV_MomentumEquationViscosity o k self_nu acc' b a).d_aw - acc'.d_aw)) := by
@@ -658,14 +668,14 @@ theorem pair_antisym_TV_MomentumEquationViscosity (acc acc' : Out_TV_MomentumEqu
     c09_atoms o k a b
     simp only [loop_TV_MomentumEquationViscosity]
     c09_norm
-    c09_close
+    c09_closeF
 
+include hk in
 /-- closed system: evaluating the equation for every particle over a symmetric neighbour relation
 gives `Σ m a = 0` -/
-include hk in
 theorem linear_momentum_TV_MomentumEquationViscosity {ι : Type} [Fintype ι] [DecidableEq ι] (p : ι → P K)
     (nbrs : ι → List ι) (hnd : ∀ i, (nbrs i).Nodup) (hsymm : ∀ i j, j ∈ nbrs i → i ∈ nbrs j)
-    (init : ι → Out_TV_MomentumEquationViscosity K) (hinit : ∀ i, (init i).d_au = 0 ∧ (init i).d_av = 0 ∧ (init i).d_aw = 0) :
+    (init : ι → Out_TV_MomentumEquationViscosity K) (hinit : ∀ i, (init i).d_au = 0 ∧ (init i).d_av = 0 ∧ (init i).d_aw = 0) (hm : ∀ i, (p i).m ≠ 0) :
     ∑ i, (p i).m * ((nbrs i).foldl (fun acc j => pair_TV_MomentumEquationViscosity o k self_nu acc (p i) (p j)) (init i)).d_au = 0 ∧
     ∑ i, (p i).m * ((nbrs i).foldl (fun acc j => pair_TV_MomentumEquationViscosity o k self_nu acc (p i) (p j)) (init i)).d_av = 0 ∧
     ∑ i, (p i).m * ((nbrs i).foldl (fun acc j => pair_TV_MomentumEquationViscosity o k self_nu acc (p i) (p j)) (init i)).d_aw = 0 := by
@@ -673,15 +683,15 @@ theorem linear_momentum_TV_MomentumEquationViscosity {ι : Type} [Fintype ι] [D
   · exact linear_momentum_of_pair (fun i => (p i).m) nbrs hnd hsymm (fun i acc j => pair_TV_MomentumEquationViscosity o k self_nu acc (p i) (p j))
       (fun s => s.d_au) init (fun i => (hinit i).1)
       (fun i j acc acc' => (additive_TV_MomentumEquationViscosity o k self_nu acc acc' (p i) (p j)).1)
-      (fun i j acc acc' => (pair_antisym_TV_MomentumEquationViscosity o k hk self_nu acc acc' (p i) (p j)).1)
+      (fun i j acc acc' => (pair_antisym_TV_MomentumEquationViscosity o k hk self_nu acc acc' (p i) (p j) (hm i) (hm j)).1)
   · exact linear_momentum_of_pair (fun i => (p i).m) nbrs hnd hsymm (fun i acc j => pair_TV_MomentumEquationViscosity o k self_nu acc (p i) (p j))
       (fun s => s.d_av) init (fun i => (hinit i).2.1)
       (fun i j acc acc' => (additive_TV_MomentumEquationViscosity o k self_nu acc acc' (p i) (p j)).2.1)
-      (fun i j acc acc' => (pair_antisym_TV_MomentumEquationViscosity o k hk self_nu acc acc' (p i) (p j)).2.1)
+      (fun i j acc acc' => (pair_antisym_TV_MomentumEquationViscosity o k hk self_nu acc acc' (p i) (p j) (hm i) (hm j)).2.1)
   · exact linear_momentum_of_pair (fun i => (p i).m) nbrs hnd hsymm (fun i acc j => pair_TV_MomentumEquationViscosity o k self_nu acc (p i) (p j))
       (fun s => s.d_aw) init (fun i => (hinit i).2.2)
       (fun i j acc acc' => (additive_TV_MomentumEquationViscosity o k self_nu acc acc' (p i) (p j)).2.2)
-      (fun i j acc acc' => (pair_antisym_TV_MomentumEquationViscosity o k hk self_nu acc acc' (p i) (p j)).2.2)
+      (fun i j acc acc' => (pair_antisym_TV_MomentumEquationViscosity o k hk self_nu acc acc' (p i) (p j) (hm i) (hm j)).2.2)
 
 end TV_MomentumEquationViscosity
 
@@ -701,8 +711,8 @@ theorem additive_TV_MomentumEquationArtificialViscosity (acc acc' : Out_TV_Momen
     c09_norm
     c09_close
 
-/-- `m_a · contrib(a, b) = −(m_b · contrib(b, a))`, component by component -/
 include hk in
+/-- `m_a · contrib(a, b) = −(m_b · contrib(b, a))`, component by component -/
 theorem pair_antisym_TV_MomentumEquationArtificialViscosity (acc acc' : Out_TV_MomentumEquationArtificialViscosity K) (a b : P K) :
     a.m * ((pair_TV_MomentumEquationArtificialViscosity o k self_alpha self_c0 acc a b).d_au - acc.d_au) = -(b.m * ((pair_TV_MomentumEquationArtificialViscosity o k self_alpha self_c0 acc' b a).d_au - acc'.d_au)) ∧
     a.m * ((pair_TV_MomentumEquationArtificialViscosity o k self_alpha self_c0 acc a b).d_av - acc.d_av) = -(b.m * ((pair_TV_MomentumEquationArtificialViscosity o k self_alpha self_c0 acc' b a).d_av - acc'.d_av)) ∧
@@ -715,8 +725,8 @@ theorem pair_antisym_TV_MomentumEquationArtificialViscosity (acc acc' : Out_TV_M
     c09_norm
     c09_close
 
-/-- the pair contribution is parallel to the separation `x_a − x_b` (cross product zero) -/
 include hk in
+/-- the pair contribution is parallel to the separation `x_a − x_b` (cross product zero) -/
 theorem central_TV_MomentumEquationArtificialViscosity (acc : Out_TV_MomentumEquationArtificialViscosity K) (a b : P K) :
     (a.x - b.x) * ((pair_TV_MomentumEquationArtificialViscosity o k self_alpha self_c0 acc a b).d_av - acc.d_av) = (a.y - b.y) * ((pair_TV_MomentumEquationArtificialViscosity o k self_alpha self_c0 acc a b).d_au - acc.d_au) ∧
     (a.y - b.y) * ((pair_TV_MomentumEquationArtificialViscosity o k self_alpha self_c0 acc a b).d_aw - acc.d_aw) = (a.z - b.z) * ((pair_TV_MomentumEquationArtificialViscosity o k self_alpha self_c0 acc a b).d_av - acc.d_av) ∧
@@ -729,9 +739,9 @@ theorem central_TV_MomentumEquationArtificialViscosity (acc : Out_TV_MomentumEqu
     c09_norm
     c09_close
 
+include hk in
 /-- closed system: evaluating the equation for every particle over a symmetric neighbour relation
 gives `Σ m a = 0` -/
-include hk in
 theorem linear_momentum_TV_MomentumEquationArtificialViscosity {ι : Type} [Fintype ι] [DecidableEq ι] (p : ι → P K)
     (nbrs : ι → List ι) (hnd : ∀ i, (nbrs i).Nodup) (hsymm : ∀ i j, j ∈ nbrs i → i ∈ nbrs j)
     (init : ι → Out_TV_MomentumEquationArtificialViscosity K) (hinit : ∀ i, (init i).d_au = 0 ∧ (init i).d_av = 0 ∧ (init i).d_aw = 0) :
@@ -752,8 +762,8 @@ theorem linear_momentum_TV_MomentumEquationArtificialViscosity {ι : Type} [Fint
       (fun i j acc acc' => (additive_TV_MomentumEquationArtificialViscosity o k self_alpha self_c0 acc acc' (p i) (p j)).2.2)
       (fun i j acc acc' => (pair_antisym_TV_MomentumEquationArtificialViscosity o k hk self_alpha self_c0 acc acc' (p i) (p j)).2.2)
 
-/-- closed system: `Σ m x × a = 0` (three components) -/
 include hk in
+/-- closed system: `Σ m x × a = 0` (three components) -/
 theorem angular_momentum_TV_MomentumEquationArtificialViscosity {ι : Type} [Fintype ι] [DecidableEq ι] (p : ι → P K)
     (nbrs : ι → List ι) (hnd : ∀ i, (nbrs i).Nodup) (hsymm : ∀ i j, j ∈ nbrs i → i ∈ nbrs j)
     (init : ι → Out_TV_MomentumEquationArtificialViscosity K) (hinit : ∀ i, (init i).d_au = 0 ∧ (init i).d_av = 0 ∧ (init i).d_aw = 0) :
@@ -804,9 +814,9 @@ theorem additive_TV_MomentumEquationArtificialStress (acc acc' : Out_TV_Momentum
     c09_norm
     c09_close
 
-/-- `m_a · contrib(a, b) = −(m_b · contrib(b, a))`, component by component -/
 include hk in
-theorem pair_antisym_TV_MomentumEquationArtificialStress (acc acc' : Out_TV_MomentumEquationArtificialStress K) (a b : P K) :
+/-- `m_a · contrib(a, b) = −(m_b · contrib(b, a))`, component by component (the body divides by the destination mass: masses non-zero) -/
+theorem pair_antisym_TV_MomentumEquationArtificialStress (acc acc' : Out_TV_MomentumEquationArtificialStress K) (a b : P K) (ha : a.m ≠ 0) (hb : b.m ≠ 0) :
     a.m * ((pair_TV_MomentumEquationArtificialStress o k  acc a b).d_au - acc.d_au) = -(b.m * ((pair_TV_MomentumEquationArtificialStress o k  acc' b a).d_au - acc'.d_au)) ∧
     a.m * ((pair_TV_MomentumEquationArtificialStress o k  acc a b).d_av - acc.d_av) = -(b.m * ((pair_TV_MomentumEquationArtificialStress o k  acc' b a).d_av - acc'.d_av)) ∧
     a.m * ((pair_TV_MomentumEquationArtificialStress o k  acc a b).d_aw - acc.d_aw) = -(b.m * ((pair_TV_MomentumEquationArtificialStress o k  acc' b a).d_aw - acc'.d_aw)) := by
@@ -816,14 +826,14 @@ theorem pair_antisym_TV_MomentumEquationArtificialStress (acc acc' : Out_TV_Mome
     c09_atoms o k a b
     simp only [loop_TV_MomentumEquationArtificialStress]
     c09_norm
-    c09_close
+    c09_closeF
 
+include hk in
 /-- closed system: evaluating the equation for every particle over a symmetric neighbour relation
 gives `Σ m a = 0` -/
-include hk in
 theorem linear_momentum_TV_MomentumEquationArtificialStress {ι : Type} [Fintype ι] [DecidableEq ι] (p : ι → P K)
     (nbrs : ι → List ι) (hnd : ∀ i, (nbrs i).Nodup) (hsymm : ∀ i j, j ∈ nbrs i → i ∈ nbrs j)
-    (init : ι → Out_TV_MomentumEquationArtificialStress K) (hinit : ∀ i, (init i).d_au = 0 ∧ (init i).d_av = 0 ∧ (init i).d_aw = 0) :
+    (init : ι → Out_TV_MomentumEquationArtificialStress K) (hinit : ∀ i, (init i).d_au = 0 ∧ (init i).d_av = 0 ∧ (init i).d_aw = 0) (hm : ∀ i, (p i).m ≠ 0) :
     ∑ i, (p i).m * ((nbrs i).foldl (fun acc j => pair_TV_MomentumEquationArtificialStress o k  acc (p i) (p j)) (init i)).d_au = 0 ∧
     ∑ i, (p i).m * ((nbrs i).foldl (fun acc j => pair_TV_MomentumEquationArtificialStress o k  acc (p i) (p j)) (init i)).d_av = 0 ∧
     ∑ i, (p i).m * ((nbrs i).foldl (fun acc j => pair_TV_MomentumEquationArtificialStress o k  acc (p i) (p j)) (init i)).d_aw = 0 := by
@@ -831,15 +841,15 @@ theorem linear_momentum_TV_MomentumEquationArtificialStress {ι : Type} [Fintype
   · exact linear_momentum_of_pair (fun i => (p i).m) nbrs hnd hsymm (fun i acc j => pair_TV_MomentumEquationArtificialStress o k  acc (p i) (p j))
       (fun s => s.d_au) init (fun i => (hinit i).1)
       (fun i j acc acc' => (additive_TV_MomentumEquationArtificialStress o k  acc acc' (p i) (p j)).1)
-      (fun i j acc acc' => (pair_antisym_TV_MomentumEquationArtificialStress o k hk  acc acc' (p i) (p j)).1)
+      (fun i j acc acc' => (pair_antisym_TV_MomentumEquationArtificialStress o k hk  acc acc' (p i) (p j) (hm i) (hm j)).1)
   · exact linear_momentum_of_pair (fun i => (p i).m) nbrs hnd hsymm (fun i acc j => pair_TV_MomentumEquationArtificialStress o k  acc (p i) (p j))
       (fun s => s.d_av) init (fun i => (hinit i).2.1)
       (fun i j acc acc' => (additive_TV_MomentumEquationArtificialStress o k  acc acc' (p i) (p j)).2.1)
-      (fun i j acc acc' => (pair_antisym_TV_MomentumEquationArtificialStress o k hk  acc acc' (p i) (p j)).2.1)
+      (fun i j acc acc' => (pair_antisym_TV_MomentumEquationArtificialStress o k hk  acc acc' (p i) (p j) (hm i) (hm j)).2.1)
   · exact linear_momentum_of_pair (fun i => (p i).m) nbrs hnd hsymm (fun i acc j => pair_TV_MomentumEquationArtificialStress o k  acc (p i) (p j))
       (fun s => s.d_aw) init (fun i => (hinit i).2.2)
       (fun i j acc acc' => (additive_TV_MomentumEquationArtificialStress o k  acc acc' (p i) (p j)).2.2)
-      (fun i j acc acc' => (pair_antisym_TV_MomentumEquationArtificialStress o k hk  acc acc' (p i) (p j)).2.2)
+      (fun i j acc acc' => (pair_antisym_TV_MomentumEquationArtificialStress o k hk  acc acc' (p i) (p j) (hm i) (hm j)).2.2)
 
 end TV_MomentumEquationArtificialStress
 
@@ -859,9 +869,9 @@ theorem additive_ED_MomentumEquation (acc acc' : Out_ED_MomentumEquation K) (a b
     c09_norm
     c09_close
 
-/-- `m_a · contrib(a, b) = −(m_b · contrib(b, a))`, component by component -/
 include hk in
-theorem pair_antisym_ED_MomentumEquation (acc acc' : Out_ED_MomentumEquation K) (a b : P K) :
+/-- `m_a · contrib(a, b) = −(m_b · contrib(b, a))`, component by component (the body divides by the destination mass: masses non-zero) -/
+theorem pair_antisym_ED_MomentumEquation (acc acc' : Out_ED_MomentumEquation K) (a b : P K) (ha : a.m ≠ 0) (hb : b.m ≠ 0) :
     a.m * ((pair_ED_MomentumEquation o k  acc a b).d_au - acc.d_au) = -(b.m * ((pair_ED_MomentumEquation o k  acc' b a).d_au - acc'.d_au)) ∧
     a.m * ((pair_ED_MomentumEquation o k  acc a b).d_av - acc.d_av) = -(b.m * ((pair_ED_MomentumEquation o k  acc' b a).d_av - acc'.d_av)) ∧
     a.m * ((pair_ED_MomentumEquation o k  acc a b).d_aw - acc.d_aw) = -(b.m * ((pair_ED_MomentumEquation o k  acc' b a).d_aw - acc'.d_aw)) := by
@@ -871,10 +881,10 @@ theorem pair_antisym_ED_MomentumEquation (acc acc' : Out_ED_MomentumEquation K) 
     c09_atoms o k a b
     simp only [loop_ED_MomentumEquation]
     c09_norm
-    c09_close
+    c09_closeF
 
-/-- the pair contribution is parallel to the separation `x_a − x_b` (cross product zero) -/
 include hk in
+/-- the pair contribution is parallel to the separation `x_a − x_b` (cross product zero) -/
 theorem central_ED_MomentumEquation (acc : Out_ED_MomentumEquation K) (a b : P K) :
     (a.x - b.x) * ((pair_ED_MomentumEquation o k  acc a b).d_av - acc.d_av) = (a.y - b.y) * ((pair_ED_MomentumEquation o k  acc a b).d_au - acc.d_au) ∧
     (a.y - b.y) * ((pair_ED_MomentumEquation o k  acc a b).d_aw - acc.d_aw) = (a.z - b.z) * ((pair_ED_MomentumEquation o k  acc a b).d_av - acc.d_av) ∧
@@ -887,12 +897,12 @@ theorem central_ED_MomentumEquation (acc : Out_ED_MomentumEquation K) (a b : P K
     c09_norm
     c09_close
 
+include hk in
 /-- closed system: evaluating the equation for every particle over a symmetric neighbour relation
 gives `Σ m a = 0` -/
-include hk in
 theorem linear_momentum_ED_MomentumEquation {ι : Type} [Fintype ι] [DecidableEq ι] (p : ι → P K)
     (nbrs : ι → List ι) (hnd : ∀ i, (nbrs i).Nodup) (hsymm : ∀ i j, j ∈ nbrs i → i ∈ nbrs j)
-    (init : ι → Out_ED_MomentumEquation K) (hinit : ∀ i, (init i).d_au = 0 ∧ (init i).d_av = 0 ∧ (init i).d_aw = 0) :
+    (init : ι → Out_ED_MomentumEquation K) (hinit : ∀ i, (init i).d_au = 0 ∧ (init i).d_av = 0 ∧ (init i).d_aw = 0) (hm : ∀ i, (p i).m ≠ 0) :
     ∑ i, (p i).m * ((nbrs i).foldl (fun acc j => pair_ED_MomentumEquation o k  acc (p i) (p j)) (init i)).d_au = 0 ∧
     ∑ i, (p i).m * ((nbrs i).foldl (fun acc j => pair_ED_MomentumEquation o k  acc (p i) (p j)) (init i)).d_av = 0 ∧
     ∑ i, (p i).m * ((nbrs i).foldl (fun acc j => pair_ED_MomentumEquation o k  acc (p i) (p j)) (init i)).d_aw = 0 := by
@@ -900,21 +910,21 @@ theorem linear_momentum_ED_MomentumEquation {ι : Type} [Fintype ι] [DecidableE
   · exact linear_momentum_of_pair (fun i => (p i).m) nbrs hnd hsymm (fun i acc j => pair_ED_MomentumEquation o k  acc (p i) (p j))
       (fun s => s.d_au) init (fun i => (hinit i).1)
       (fun i j acc acc' => (additive_ED_MomentumEquation o k  acc acc' (p i) (p j)).1)
-      (fun i j acc acc' => (pair_antisym_ED_MomentumEquation o k hk  acc acc' (p i) (p j)).1)
+      (fun i j acc acc' => (pair_antisym_ED_MomentumEquation o k hk  acc acc' (p i) (p j) (hm i) (hm j)).1)
   · exact linear_momentum_of_pair (fun i => (p i).m) nbrs hnd hsymm (fun i acc j => pair_ED_MomentumEquation o k  acc (p i) (p j))
       (fun s => s.d_av) init (fun i => (hinit i).2.1)
       (fun i j acc acc' => (additive_ED_MomentumEquation o k  acc acc' (p i) (p j)).2.1)
-      (fun i j acc acc' => (pair_antisym_ED_MomentumEquation o k hk  acc acc' (p i) (p j)).2.1)
+      (fun i j acc acc' => (pair_antisym_ED_MomentumEquation o k hk  acc acc' (p i) (p j) (hm i) (hm j)).2.1)
   · exact linear_momentum_of_pair (fun i => (p i).m) nbrs hnd hsymm (fun i acc j => pair_ED_MomentumEquation o k  acc (p i) (p j))
       (fun s => s.d_aw) init (fun i => (hinit i).2.2)
       (fun i j acc acc' => (additive_ED_MomentumEquation o k  acc acc' (p i) (p j)).2.2)
-      (fun i j acc acc' => (pair_antisym_ED_MomentumEquation o k hk  acc acc' (p i) (p j)).2.2)
+      (fun i j acc acc' => (pair_antisym_ED_MomentumEquation o k hk  acc acc' (p i) (p j) (hm i) (hm j)).2.2)
 
-/-- closed system: `Σ m x × a = 0` (three components) -/
 include hk in
+/-- closed system: `Σ m x × a = 0` (three components) -/
 theorem angular_momentum_ED_MomentumEquation {ι : Type} [Fintype ι] [DecidableEq ι] (p : ι → P K)
     (nbrs : ι → List ι) (hnd : ∀ i, (nbrs i).Nodup) (hsymm : ∀ i j, j ∈ nbrs i → i ∈ nbrs j)
-    (init : ι → Out_ED_MomentumEquation K) (hinit : ∀ i, (init i).d_au = 0 ∧ (init i).d_av = 0 ∧ (init i).d_aw = 0) :
+    (init : ι → Out_ED_MomentumEquation K) (hinit : ∀ i, (init i).d_au = 0 ∧ (init i).d_av = 0 ∧ (init i).d_aw = 0) (hm : ∀ i, (p i).m ≠ 0) :
     (∑ i, (p i).m * ((p i).x * ((nbrs i).foldl (fun acc j => pair_ED_MomentumEquation o k  acc (p i) (p j)) (init i)).d_av - (p i).y * ((nbrs i).foldl (fun acc j => pair_ED_MomentumEquation o k  acc (p i) (p j)) (init i)).d_au) = 0) ∧
     (∑ i, (p i).m * ((p i).y * ((nbrs i).foldl (fun acc j => pair_ED_MomentumEquation o k  acc (p i) (p j)) (init i)).d_aw - (p i).z * ((nbrs i).foldl (fun acc j => pair_ED_MomentumEquation o k  acc (p i) (p j)) (init i)).d_av) = 0) ∧
     (∑ i, (p i).m * ((p i).z * ((nbrs i).foldl (fun acc j => pair_ED_MomentumEquation o k  acc (p i) (p j)) (init i)).d_au - (p i).x * ((nbrs i).foldl (fun acc j => pair_ED_MomentumEquation o k  acc (p i) (p j)) (init i)).d_aw) = 0) := by
@@ -924,24 +934,24 @@ theorem angular_momentum_ED_MomentumEquation {ι : Type} [Fintype ι] [Decidable
       (fun i => (hinit i).1) (fun i => (hinit i).2.1)
       (fun i j acc acc' => (additive_ED_MomentumEquation o k  acc acc' (p i) (p j)).1)
       (fun i j acc acc' => (additive_ED_MomentumEquation o k  acc acc' (p i) (p j)).2.1)
-      (fun i j acc acc' => (pair_antisym_ED_MomentumEquation o k hk  acc acc' (p i) (p j)).1)
-      (fun i j acc acc' => (pair_antisym_ED_MomentumEquation o k hk  acc acc' (p i) (p j)).2.1)
+      (fun i j acc acc' => (pair_antisym_ED_MomentumEquation o k hk  acc acc' (p i) (p j) (hm i) (hm j)).1)
+      (fun i j acc acc' => (pair_antisym_ED_MomentumEquation o k hk  acc acc' (p i) (p j) (hm i) (hm j)).2.1)
       (fun i j acc => (central_ED_MomentumEquation o k hk  acc (p i) (p j)).1)
   · exact angular_momentum_of_pair (fun i => (p i).m) (fun i => (p i).y) (fun i => (p i).z) nbrs hnd hsymm
       (fun i acc j => pair_ED_MomentumEquation o k  acc (p i) (p j)) (fun s => s.d_av) (fun s => s.d_aw) init
       (fun i => (hinit i).2.1) (fun i => (hinit i).2.2)
       (fun i j acc acc' => (additive_ED_MomentumEquation o k  acc acc' (p i) (p j)).2.1)
       (fun i j acc acc' => (additive_ED_MomentumEquation o k  acc acc' (p i) (p j)).2.2)
-      (fun i j acc acc' => (pair_antisym_ED_MomentumEquation o k hk  acc acc' (p i) (p j)).2.1)
-      (fun i j acc acc' => (pair_antisym_ED_MomentumEquation o k hk  acc acc' (p i) (p j)).2.2)
+      (fun i j acc acc' => (pair_antisym_ED_MomentumEquation o k hk  acc acc' (p i) (p j) (hm i) (hm j)).2.1)
+      (fun i j acc acc' => (pair_antisym_ED_MomentumEquation o k hk  acc acc' (p i) (p j) (hm i) (hm j)).2.2)
       (fun i j acc => (central_ED_MomentumEquation o k hk  acc (p i) (p j)).2.1)
   · exact angular_momentum_of_pair (fun i => (p i).m) (fun i => (p i).z) (fun i => (p i).x) nbrs hnd hsymm
       (fun i acc j => pair_ED_MomentumEquation o k  acc (p i) (p j)) (fun s => s.d_aw) (fun s => s.d_au) init
       (fun i => (hinit i).2.2) (fun i => (hinit i).1)
       (fun i j acc acc' => (additive_ED_MomentumEquation o k  acc acc' (p i) (p j)).2.2)
       (fun i j acc acc' => (additive_ED_MomentumEquation o k  acc acc' (p i) (p j)).1)
-      (fun i j acc acc' => (pair_antisym_ED_MomentumEquation o k hk  acc acc' (p i) (p j)).2.2)
-      (fun i j acc acc' => (pair_antisym_ED_MomentumEquation o k hk  acc acc' (p i) (p j)).1)
+      (fun i j acc acc' => (pair_antisym_ED_MomentumEquation o k hk  acc acc' (p i) (p j) (hm i) (hm j)).2.2)
+      (fun i j acc acc' => (pair_antisym_ED_MomentumEquation o k hk  acc acc' (p i) (p j) (hm i) (hm j)).1)
       (fun i j acc => (central_ED_MomentumEquation o k hk  acc (p i) (p j)).2.2)
 
 end ED_MomentumEquation
@@ -962,9 +972,9 @@ theorem additive_ED_MomentumEquationPressureGradient (acc acc' : Out_ED_Momentum
     c09_norm
     c09_close
 
-/-- `m_a · contrib(a, b) = −(m_b · contrib(b, a))`, component by component — for a uniform average pressure only -/
 include hk in
-theorem pair_antisym_ED_MomentumEquationPressureGradient (acc acc' : Out_ED_MomentumEquationPressureGradient K) (a b : P K) (hp : a.pavg = b.pavg) :
+/-- `m_a · contrib(a, b) = −(m_b · contrib(b, a))`, component by component — for a uniform average pressure only (the body divides by the destination mass: masses non-zero) -/
+theorem pair_antisym_ED_MomentumEquationPressureGradient (acc acc' : Out_ED_MomentumEquationPressureGradient K) (a b : P K) (hp : a.pavg = b.pavg) (ha : a.m ≠ 0) (hb : b.m ≠ 0) :
     a.m * ((pair_ED_MomentumEquationPressureGradient o k self_pb acc a b).d_au - acc.d_au) = -(b.m * ((pair_ED_MomentumEquationPressureGradient o k self_pb acc' b a).d_au - acc'.d_au)) ∧
     a.m * ((pair_ED_MomentumEquationPressureGradient o k self_pb acc a b).d_av - acc.d_av) = -(b.m * ((pair_ED_MomentumEquationPressureGradient o k self_pb acc' b a).d_av - acc'.d_av)) ∧
     a.m * ((pair_ED_MomentumEquationPressureGradient o k self_pb acc a b).d_aw - acc.d_aw) = -(b.m * ((pair_ED_MomentumEquationPressureGradient o k self_pb acc' b a).d_aw - acc'.d_aw)) := by
@@ -974,10 +984,10 @@ theorem pair_antisym_ED_MomentumEquationPressureGradient (acc acc' : Out_ED_Mome
     c09_atoms o k a b
     simp only [loop_ED_MomentumEquationPressureGradient, hp]
     c09_norm
-    c09_close
+    c09_closeF
 
-/-- the pair contribution is parallel to the separation `x_a − x_b` (cross product zero) -/
 include hk in
+/-- the pair contribution is parallel to the separation `x_a − x_b` (cross product zero) -/
 theorem central_ED_MomentumEquationPressureGradient (acc : Out_ED_MomentumEquationPressureGradient K) (a b : P K) :
     (a.x - b.x) * ((pair_ED_MomentumEquationPressureGradient o k self_pb acc a b).d_av - acc.d_av) = (a.y - b.y) * ((pair_ED_MomentumEquationPressureGradient o k self_pb acc a b).d_au - acc.d_au) ∧
     (a.y - b.y) * ((pair_ED_MomentumEquationPressureGradient o k self_pb acc a b).d_aw - acc.d_aw) = (a.z - b.z) * ((pair_ED_MomentumEquationPressureGradient o k self_pb acc a b).d_av - acc.d_av) ∧
@@ -990,12 +1000,12 @@ theorem central_ED_MomentumEquationPressureGradient (acc : Out_ED_MomentumEquati
     c09_norm
     c09_close
 
+include hk in
 /-- closed system: evaluating the equation for every particle over a symmetric neighbour relation
 gives `Σ m a = 0` -/
-include hk in
 theorem linear_momentum_ED_MomentumEquationPressureGradient {ι : Type} [Fintype ι] [DecidableEq ι] (p : ι → P K)
     (nbrs : ι → List ι) (hnd : ∀ i, (nbrs i).Nodup) (hsymm : ∀ i j, j ∈ nbrs i → i ∈ nbrs j)
-    (init : ι → Out_ED_MomentumEquationPressureGradient K) (hinit : ∀ i, (init i).d_au = 0 ∧ (init i).d_av = 0 ∧ (init i).d_aw = 0) (hpavg : ∀ i j, (p i).pavg = (p j).pavg) :
+    (init : ι → Out_ED_MomentumEquationPressureGradient K) (hinit : ∀ i, (init i).d_au = 0 ∧ (init i).d_av = 0 ∧ (init i).d_aw = 0) (hp_all : ∀ i j, (p i).pavg = (p j).pavg) (hm : ∀ i, (p i).m ≠ 0) :
     ∑ i, (p i).m * ((nbrs i).foldl (fun acc j => pair_ED_MomentumEquationPressureGradient o k self_pb acc (p i) (p j)) (init i)).d_au = 0 ∧
     ∑ i, (p i).m * ((nbrs i).foldl (fun acc j => pair_ED_MomentumEquationPressureGradient o k self_pb acc (p i) (p j)) (init i)).d_av = 0 ∧
     ∑ i, (p i).m * ((nbrs i).foldl (fun acc j => pair_ED_MomentumEquationPressureGradient o k self_pb acc (p i) (p j)) (init i)).d_aw = 0 := by
@@ -1003,21 +1013,21 @@ theorem linear_momentum_ED_MomentumEquationPressureGradient {ι : Type} [Fintype
   · exact linear_momentum_of_pair (fun i => (p i).m) nbrs hnd hsymm (fun i acc j => pair_ED_MomentumEquationPressureGradient o k self_pb acc (p i) (p j))
       (fun s => s.d_au) init (fun i => (hinit i).1)
       (fun i j acc acc' => (additive_ED_MomentumEquationPressureGradient o k self_pb acc acc' (p i) (p j)).1)
-      (fun i j acc acc' => (pair_antisym_ED_MomentumEquationPressureGradient o k hk self_pb acc acc' (p i) (p j) (hpavg i j)).1)
+      (fun i j acc acc' => (pair_antisym_ED_MomentumEquationPressureGradient o k hk self_pb acc acc' (p i) (p j) (hp_all i j) (hm i) (hm j)).1)
   · exact linear_momentum_of_pair (fun i => (p i).m) nbrs hnd hsymm (fun i acc j => pair_ED_MomentumEquationPressureGradient o k self_pb acc (p i) (p j))
       (fun s => s.d_av) init (fun i => (hinit i).2.1)
       (fun i j acc acc' => (additive_ED_MomentumEquationPressureGradient o k self_pb acc acc' (p i) (p j)).2.1)
-      (fun i j acc acc' => (pair_antisym_ED_MomentumEquationPressureGradient o k hk self_pb acc acc' (p i) (p j) (hpavg i j)).2.1)
+      (fun i j acc acc' => (pair_antisym_ED_MomentumEquationPressureGradient o k hk self_pb acc acc' (p i) (p j) (hp_all i j) (hm i) (hm j)).2.1)
   · exact linear_momentum_of_pair (fun i => (p i).m) nbrs hnd hsymm (fun i acc j => pair_ED_MomentumEquationPressureGradient o k self_pb acc (p i) (p j))
       (fun s => s.d_aw) init (fun i => (hinit i).2.2)
       (fun i j acc acc' => (additive_ED_MomentumEquationPressureGradient o k self_pb acc acc' (p i) (p j)).2.2)
-      (fun i j acc acc' => (pair_antisym_ED_MomentumEquationPressureGradient o k hk self_pb acc acc' (p i) (p j) (hpavg i j)).2.2)
+      (fun i j acc acc' => (pair_antisym_ED_MomentumEquationPressureGradient o k hk self_pb acc acc' (p i) (p j) (hp_all i j) (hm i) (hm j)).2.2)
 
-/-- closed system: `Σ m x × a = 0` (three components) -/
 include hk in
+/-- closed system: `Σ m x × a = 0` (three components) -/
 theorem angular_momentum_ED_MomentumEquationPressureGradient {ι : Type} [Fintype ι] [DecidableEq ι] (p : ι → P K)
     (nbrs : ι → List ι) (hnd : ∀ i, (nbrs i).Nodup) (hsymm : ∀ i j, j ∈ nbrs i → i ∈ nbrs j)
-    (init : ι → Out_ED_MomentumEquationPressureGradient K) (hinit : ∀ i, (init i).d_au = 0 ∧ (init i).d_av = 0 ∧ (init i).d_aw = 0) (hpavg : ∀ i j, (p i).pavg = (p j).pavg) :
+    (init : ι → Out_ED_MomentumEquationPressureGradient K) (hinit : ∀ i, (init i).d_au = 0 ∧ (init i).d_av = 0 ∧ (init i).d_aw = 0) (hp_all : ∀ i j, (p i).pavg = (p j).pavg) (hm : ∀ i, (p i).m ≠ 0) :
     (∑ i, (p i).m * ((p i).x * ((nbrs i).foldl (fun acc j => pair_ED_MomentumEquationPressureGradient o k self_pb acc (p i) (p j)) (init i)).d_av - (p i).y * ((nbrs i).foldl (fun acc j => pair_ED_MomentumEquationPressureGradient o k self_pb acc (p i) (p j)) (init i)).d_au) = 0) ∧
     (∑ i, (p i).m * ((p i).y * ((nbrs i).foldl (fun acc j => pair_ED_MomentumEquationPressureGradient o k self_pb acc (p i) (p j)) (init i)).d_aw - (p i).z * ((nbrs i).foldl (fun acc j => pair_ED_MomentumEquationPressureGradient o k self_pb acc (p i) (p j)) (init i)).d_av) = 0) ∧
     (∑ i, (p i).m * ((p i).z * ((nbrs i).foldl (fun acc j => pair_ED_MomentumEquationPressureGradient o k self_pb acc (p i) (p j)) (init i)).d_au - (p i).x * ((nbrs i).foldl (fun acc j => pair_ED_MomentumEquationPressureGradient o k self_pb acc (p i) (p j)) (init i)).d_aw) = 0) := by
@@ -1027,24 +1037,24 @@ theorem angular_momentum_ED_MomentumEquationPressureGradient {ι : Type} [Fintyp
       (fun i => (hinit i).1) (fun i => (hinit i).2.1)
       (fun i j acc acc' => (additive_ED_MomentumEquationPressureGradient o k self_pb acc acc' (p i) (p j)).1)
       (fun i j acc acc' => (additive_ED_MomentumEquationPressureGradient o k self_pb acc acc' (p i) (p j)).2.1)
-      (fun i j acc acc' => (pair_antisym_ED_MomentumEquationPressureGradient o k hk self_pb acc acc' (p i) (p j) (hpavg i j)).1)
-      (fun i j acc acc' => (pair_antisym_ED_MomentumEquationPressureGradient o k hk self_pb acc acc' (p i) (p j) (hpavg i j)).2.1)
+      (fun i j acc acc' => (pair_antisym_ED_MomentumEquationPressureGradient o k hk self_pb acc acc' (p i) (p j) (hp_all i j) (hm i) (hm j)).1)
+      (fun i j acc acc' => (pair_antisym_ED_MomentumEquationPressureGradient o k hk self_pb acc acc' (p i) (p j) (hp_all i j) (hm i) (hm j)).2.1)
       (fun i j acc => (central_ED_MomentumEquationPressureGradient o k hk self_pb acc (p i) (p j)).1)
   · exact angular_momentum_of_pair (fun i => (p i).m) (fun i => (p i).y) (fun i => (p i).z) nbrs hnd hsymm
       (fun i acc j => pair_ED_MomentumEquationPressureGradient o k self_pb acc (p i) (p j)) (fun s => s.d_av) (fun s => s.d_aw) init
       (fun i => (hinit i).2.1) (fun i => (hinit i).2.2)
       (fun i j acc acc' => (additive_ED_MomentumEquationPressureGradient o k self_pb acc acc' (p i) (p j)).2.1)
       (fun i j acc acc' => (additive_ED_MomentumEquationPressureGradient o k self_pb acc acc' (p i) (p j)).2.2)
-      (fun i j acc acc' => (pair_antisym_ED_MomentumEquationPressureGradient o k hk self_pb acc acc' (p i) (p j) (hpavg i j)).2.1)
-      (fun i j acc acc' => (pair_antisym_ED_MomentumEquationPressureGradient o k hk self_pb acc acc' (p i) (p j) (hpavg i j)).2.2)
+      (fun i j acc acc' => (pair_antisym_ED_MomentumEquationPressureGradient o k hk self_pb acc acc' (p i) (p j) (hp_all i j) (hm i) (hm j)).2.1)
+      (fun i j acc acc' => (pair_antisym_ED_MomentumEquationPressureGradient o k hk self_pb acc acc' (p i) (p j) (hp_all i j) (hm i) (hm j)).2.2)
       (fun i j acc => (central_ED_MomentumEquationPressureGradient o k hk self_pb acc (p i) (p j)).2.1)
   · exact angular_momentum_of_pair (fun i => (p i).m) (fun i => (p i).z) (fun i => (p i).x) nbrs hnd hsymm
       (fun i acc j => pair_ED_MomentumEquationPressureGradient o k self_pb acc (p i) (p j)) (fun s => s.d_aw) (fun s => s.d_au) init
       (fun i => (hinit i).2.2) (fun i => (hinit i).1)
       (fun i j acc acc' => (additive_ED_MomentumEquationPressureGradient o k self_pb acc acc' (p i) (p j)).2.2)
       (fun i j acc acc' => (additive_ED_MomentumEquationPressureGradient o k self_pb acc acc' (p i) (p j)).1)
-      (fun i j acc acc' => (pair_antisym_ED_MomentumEquationPressureGradient o k hk self_pb acc acc' (p i) (p j) (hpavg i j)).2.2)
-      (fun i j acc acc' => (pair_antisym_ED_MomentumEquationPressureGradient o k hk self_pb acc acc' (p i) (p j) (hpavg i j)).1)
+      (fun i j acc acc' => (pair_antisym_ED_MomentumEquationPressureGradient o k hk self_pb acc acc' (p i) (p j) (hp_all i j) (hm i) (hm j)).2.2)
+      (fun i j acc acc' => (pair_antisym_ED_MomentumEquationPressureGradient o k hk self_pb acc acc' (p i) (p j) (hp_all i j) (hm i) (hm j)).1)
       (fun i j acc => (central_ED_MomentumEquationPressureGradient o k hk self_pb acc (p i) (p j)).2.2)
 
 end ED_MomentumEquationPressureGradient
@@ -1065,8 +1075,8 @@ theorem additive_VI_LaminarViscosity (acc acc' : Out_VI_LaminarViscosity K) (a b
     c09_norm
     c09_close
 
-/-- `m_a · contrib(a, b) = −(m_b · contrib(b, a))`, component by component -/
 include hk in
+/-- `m_a · contrib(a, b) = −(m_b · contrib(b, a))`, component by component -/
 theorem pair_antisym_VI_LaminarViscosity (acc acc' : Out_VI_LaminarViscosity K) (a b : P K) :
     a.m * ((pair_VI_LaminarViscosity o k self_eta self_nu acc a b).d_au - acc.d_au) = -(b.m * ((pair_VI_LaminarViscosity o k self_eta self_nu acc' b a).d_au - acc'.d_au)) ∧
     a.m * ((pair_VI_LaminarViscosity o k self_eta self_nu acc a b).d_av - acc.d_av) = -(b.m * ((pair_VI_LaminarViscosity o k self_eta self_nu acc' b a).d_av - acc'.d_av)) ∧
@@ -1079,9 +1089,9 @@ theorem pair_antisym_VI_LaminarViscosity (acc acc' : Out_VI_LaminarViscosity K) 
     c09_norm
     c09_close
 
+include hk in
 /-- closed system: evaluating the equation for every particle over a symmetric neighbour relation
 gives `Σ m a = 0` -/
-include hk in
 theorem linear_momentum_VI_LaminarViscosity {ι : Type} [Fintype ι] [DecidableEq ι] (p : ι → P K)
     (nbrs : ι → List ι) (hnd : ∀ i, (nbrs i).Nodup) (hsymm : ∀ i j, j ∈ nbrs i → i ∈ nbrs j)
     (init : ι → Out_VI_LaminarViscosity K) (hinit : ∀ i, (init i).d_au = 0 ∧ (init i).d_av = 0 ∧ (init i).d_aw = 0) :
@@ -1120,8 +1130,8 @@ theorem additive_VI_MonaghanSignalViscosityFluids (acc acc' : Out_VI_MonaghanSig
     c09_norm
     c09_close
 
-/-- `m_a · contrib(a, b) = −(m_b · contrib(b, a))`, component by component -/
 include hk in
+/-- `m_a · contrib(a, b) = −(m_b · contrib(b, a))`, component by component -/
 theorem pair_antisym_VI_MonaghanSignalViscosityFluids (acc acc' : Out_VI_MonaghanSignalViscosityFluids K) (a b : P K) :
     a.m * ((pair_VI_MonaghanSignalViscosityFluids o k self_alpha acc a b).d_au - acc.d_au) = -(b.m * ((pair_VI_MonaghanSignalViscosityFluids o k self_alpha acc' b a).d_au - acc'.d_au)) ∧
     a.m * ((pair_VI_MonaghanSignalViscosityFluids o k self_alpha acc a b).d_av - acc.d_av) = -(b.m * ((pair_VI_MonaghanSignalViscosityFluids o k self_alpha acc' b a).d_av - acc'.d_av)) ∧
@@ -1134,8 +1144,8 @@ theorem pair_antisym_VI_MonaghanSignalViscosityFluids (acc acc' : Out_VI_Monagha
     c09_norm
     c09_close
 
-/-- the pair contribution is parallel to the separation `x_a − x_b` (cross product zero) -/
 include hk in
+/-- the pair contribution is parallel to the separation `x_a − x_b` (cross product zero) -/
 theorem central_VI_MonaghanSignalViscosityFluids (acc : Out_VI_MonaghanSignalViscosityFluids K) (a b : P K) :
     (a.x - b.x) * ((pair_VI_MonaghanSignalViscosityFluids o k self_alpha acc a b).d_av - acc.d_av) = (a.y - b.y) * ((pair_VI_MonaghanSignalViscosityFluids o k self_alpha acc a b).d_au - acc.d_au) ∧
     (a.y - b.y) * ((pair_VI_MonaghanSignalViscosityFluids o k self_alpha acc a b).d_aw - acc.d_aw) = (a.z - b.z) * ((pair_VI_MonaghanSignalViscosityFluids o k self_alpha acc a b).d_av - acc.d_av) ∧
@@ -1148,9 +1158,9 @@ theorem central_VI_MonaghanSignalViscosityFluids (acc : Out_VI_MonaghanSignalVis
     c09_norm
     c09_close
 
+include hk in
 /-- closed system: evaluating the equation for every particle over a symmetric neighbour relation
 gives `Σ m a = 0` -/
-include hk in
 theorem linear_momentum_VI_MonaghanSignalViscosityFluids {ι : Type} [Fintype ι] [DecidableEq ι] (p : ι → P K)
     (nbrs : ι → List ι) (hnd : ∀ i, (nbrs i).Nodup) (hsymm : ∀ i j, j ∈ nbrs i → i ∈ nbrs j)
     (init : ι → Out_VI_MonaghanSignalViscosityFluids K) (hinit : ∀ i, (init i).d_au = 0 ∧ (init i).d_av = 0 ∧ (init i).d_aw = 0) :
@@ -1171,8 +1181,8 @@ theorem linear_momentum_VI_MonaghanSignalViscosityFluids {ι : Type} [Fintype ι
       (fun i j acc acc' => (additive_VI_MonaghanSignalViscosityFluids o k self_alpha acc acc' (p i) (p j)).2.2)
       (fun i j acc acc' => (pair_antisym_VI_MonaghanSignalViscosityFluids o k hk self_alpha acc acc' (p i) (p j)).2.2)
 
-/-- closed system: `Σ m x × a = 0` (three components) -/
 include hk in
+/-- closed system: `Σ m x × a = 0` (three components) -/
 theorem angular_momentum_VI_MonaghanSignalViscosityFluids {ι : Type} [Fintype ι] [DecidableEq ι] (p : ι → P K)
     (nbrs : ι → List ι) (hnd : ∀ i, (nbrs i).Nodup) (hsymm : ∀ i j, j ∈ nbrs i → i ∈ nbrs j)
     (init : ι → Out_VI_MonaghanSignalViscosityFluids K) (hinit : ∀ i, (init i).d_au = 0 ∧ (init i).d_av = 0 ∧ (init i).d_aw = 0) :
@@ -1223,9 +1233,9 @@ theorem additive_VI_ClearyArtificialViscosity (acc acc' : Out_VI_ClearyArtificia
     c09_norm
     c09_close
 
-/-- `m_a · contrib(a, b) = −(m_b · contrib(b, a))`, component by component -/
 include hk in
-theorem pair_antisym_VI_ClearyArtificialViscosity (acc acc' : Out_VI_ClearyArtificialViscosity K) (a b : P K) :
+/-- `m_a · contrib(a, b) = −(m_b · contrib(b, a))`, component by component (the body divides by the destination mass: masses non-zero) -/
+theorem pair_antisym_VI_ClearyArtificialViscosity (acc acc' : Out_VI_ClearyArtificialViscosity K) (a b : P K) (ha : a.m ≠ 0) (hb : b.m ≠ 0) :
     a.m * ((pair_VI_ClearyArtificialViscosity o k self_alpha self_factor acc a b).d_au - acc.d_au) = -(b.m * ((pair_VI_ClearyArtificialViscosity o k self_alpha self_factor acc' b a).d_au - acc'.d_au)) ∧
     a.m * ((pair_VI_ClearyArtificialViscosity o k self_alpha self_factor acc a b).d_av - acc.d_av) = -(b.m * ((pair_VI_ClearyArtificialViscosity o k self_alpha self_factor acc' b a).d_av - acc'.d_av)) ∧
     a.m * ((pair_VI_ClearyArtificialViscosity o k self_alpha self_factor acc a b).d_aw - acc.d_aw) = -(b.m * ((pair_VI_ClearyArtificialViscosity o k self_alpha self_factor acc' b a).d_aw - acc'.d_aw)) := by
@@ -1235,10 +1245,10 @@ theorem pair_antisym_VI_ClearyArtificialViscosity (acc acc' : Out_VI_ClearyArtif
     c09_atoms o k a b
     simp only [loop_VI_ClearyArtificialViscosity]
     c09_norm
-    c09_close
+    c09_closeF
 
-/-- the pair contribution is parallel to the separation `x_a − x_b` (cross product zero) -/
 include hk in
+/-- the pair contribution is parallel to the separation `x_a − x_b` (cross product zero) -/
 theorem central_VI_ClearyArtificialViscosity (acc : Out_VI_ClearyArtificialViscosity K) (a b : P K) :
     (a.x - b.x) * ((pair_VI_ClearyArtificialViscosity o k self_alpha self_factor acc a b).d_av - acc.d_av) = (a.y - b.y) * ((pair_VI_ClearyArtificialViscosity o k self_alpha self_factor acc a b).d_au - acc.d_au) ∧
     (a.y - b.y) * ((pair_VI_ClearyArtificialViscosity o k self_alpha self_factor acc a b).d_aw - acc.d_aw) = (a.z - b.z) * ((pair_VI_ClearyArtificialViscosity o k self_alpha self_factor acc a b).d_av - acc.d_av) ∧
@@ -1251,12 +1261,12 @@ theorem central_VI_ClearyArtificialViscosity (acc : Out_VI_ClearyArtificialVisco
     c09_norm
     c09_close
 
+include hk in
 /-- closed system: evaluating the equation for every particle over a symmetric neighbour relation
 gives `Σ m a = 0` -/
-include hk in
 theorem linear_momentum_VI_ClearyArtificialViscosity {ι : Type} [Fintype ι] [DecidableEq ι] (p : ι → P K)
     (nbrs : ι → List ι) (hnd : ∀ i, (nbrs i).Nodup) (hsymm : ∀ i j, j ∈ nbrs i → i ∈ nbrs j)
-    (init : ι → Out_VI_ClearyArtificialViscosity K) (hinit : ∀ i, (init i).d_au = 0 ∧ (init i).d_av = 0 ∧ (init i).d_aw = 0) :
+    (init : ι → Out_VI_ClearyArtificialViscosity K) (hinit : ∀ i, (init i).d_au = 0 ∧ (init i).d_av = 0 ∧ (init i).d_aw = 0) (hm : ∀ i, (p i).m ≠ 0) :
     ∑ i, (p i).m * ((nbrs i).foldl (fun acc j => pair_VI_ClearyArtificialViscosity o k self_alpha self_factor acc (p i) (p j)) (init i)).d_au = 0 ∧
     ∑ i, (p i).m * ((nbrs i).foldl (fun acc j => pair_VI_ClearyArtificialViscosity o k self_alpha self_factor acc (p i) (p j)) (init i)).d_av = 0 ∧
     ∑ i, (p i).m * ((nbrs i).foldl (fun acc j => pair_VI_ClearyArtificialViscosity o k self_alpha self_factor acc (p i) (p j)) (init i)).d_aw = 0 := by
@@ -1264,21 +1274,21 @@ theorem linear_momentum_VI_ClearyArtificialViscosity {ι : Type} [Fintype ι] [D
   · exact linear_momentum_of_pair (fun i => (p i).m) nbrs hnd hsymm (fun i acc j => pair_VI_ClearyArtificialViscosity o k self_alpha self_factor acc (p i) (p j))
       (fun s => s.d_au) init (fun i => (hinit i).1)
       (fun i j acc acc' => (additive_VI_ClearyArtificialViscosity o k self_alpha self_factor acc acc' (p i) (p j)).1)
-      (fun i j acc acc' => (pair_antisym_VI_ClearyArtificialViscosity o k hk self_alpha self_factor acc acc' (p i) (p j)).1)
+      (fun i j acc acc' => (pair_antisym_VI_ClearyArtificialViscosity o k hk self_alpha self_factor acc acc' (p i) (p j) (hm i) (hm j)).1)
   · exact linear_momentum_of_pair (fun i => (p i).m) nbrs hnd hsymm (fun i acc j => pair_VI_ClearyArtificialViscosity o k self_alpha self_factor acc (p i) (p j))
       (fun s => s.d_av) init (fun i => (hinit i).2.1)
       (fun i j acc acc' => (additive_VI_ClearyArtificialViscosity o k self_alpha self_factor acc acc' (p i) (p j)).2.1)
-      (fun i j acc acc' => (pair_antisym_VI_ClearyArtificialViscosity o k hk self_alpha self_factor acc acc' (p i) (p j)).2.1)
+      (fun i j acc acc' => (pair_antisym_VI_ClearyArtificialViscosity o k hk self_alpha self_factor acc acc' (p i) (p j) (hm i) (hm j)).2.1)
   · exact linear_momentum_of_pair (fun i => (p i).m) nbrs hnd hsymm (fun i acc j => pair_VI_ClearyArtificialViscosity o k self_alpha self_factor acc (p i) (p j))
       (fun s => s.d_aw) init (fun i => (hinit i).2.2)
       (fun i j acc acc' => (additive_VI_ClearyArtificialViscosity o k self_alpha self_factor acc acc' (p i) (p j)).2.2)
-      (fun i j acc acc' => (pair_antisym_VI_ClearyArtificialViscosity o k hk self_alpha self_factor acc acc' (p i) (p j)).2.2)
+      (fun i j acc acc' => (pair_antisym_VI_ClearyArtificialViscosity o k hk self_alpha self_factor acc acc' (p i) (p j) (hm i) (hm j)).2.2)
 
-/-- closed system: `Σ m x × a = 0` (three components) -/
 include hk in
+/-- closed system: `Σ m x × a = 0` (three components) -/
 theorem angular_momentum_VI_ClearyArtificialViscosity {ι : Type} [Fintype ι] [DecidableEq ι] (p : ι → P K)
     (nbrs : ι → List ι) (hnd : ∀ i, (nbrs i).Nodup) (hsymm : ∀ i j, j ∈ nbrs i → i ∈ nbrs j)
-    (init : ι → Out_VI_ClearyArtificialViscosity K) (hinit : ∀ i, (init i).d_au = 0 ∧ (init i).d_av = 0 ∧ (init i).d_aw = 0) :
+    (init : ι → Out_VI_ClearyArtificialViscosity K) (hinit : ∀ i, (init i).d_au = 0 ∧ (init i).d_av = 0 ∧ (init i).d_aw = 0) (hm : ∀ i, (p i).m ≠ 0) :
     (∑ i, (p i).m * ((p i).x * ((nbrs i).foldl (fun acc j => pair_VI_ClearyArtificialViscosity o k self_alpha self_factor acc (p i) (p j)) (init i)).d_av - (p i).y * ((nbrs i).foldl (fun acc j => pair_VI_ClearyArtificialViscosity o k self_alpha self_factor acc (p i) (p j)) (init i)).d_au) = 0) ∧
     (∑ i, (p i).m * ((p i).y * ((nbrs i).foldl (fun acc j => pair_VI_ClearyArtificialViscosity o k self_alpha self_factor acc (p i) (p j)) (init i)).d_aw - (p i).z * ((nbrs i).foldl (fun acc j => pair_VI_ClearyArtificialViscosity o k self_alpha self_factor acc (p i) (p j)) (init i)).d_av) = 0) ∧
     (∑ i, (p i).m * ((p i).z * ((nbrs i).foldl (fun acc j => pair_VI_ClearyArtificialViscosity o k self_alpha self_factor acc (p i) (p j)) (init i)).d_au - (p i).x * ((nbrs i).foldl (fun acc j => pair_VI_ClearyArtificialViscosity o k self_alpha self_factor acc (p i) (p j)) (init i)).d_aw) = 0) := by
@@ -1288,24 +1298,24 @@ theorem angular_momentum_VI_ClearyArtificialViscosity {ι : Type} [Fintype ι] [
       (fun i => (hinit i).1) (fun i => (hinit i).2.1)
       (fun i j acc acc' => (additive_VI_ClearyArtificialViscosity o k self_alpha self_factor acc acc' (p i) (p j)).1)
       (fun i j acc acc' => (additive_VI_ClearyArtificialViscosity o k self_alpha self_factor acc acc' (p i) (p j)).2.1)
-      (fun i j acc acc' => (pair_antisym_VI_ClearyArtificialViscosity o k hk self_alpha self_factor acc acc' (p i) (p j)).1)
-      (fun i j acc acc' => (pair_antisym_VI_ClearyArtificialViscosity o k hk self_alpha self_factor acc acc' (p i) (p j)).2.1)
+      (fun i j acc acc' => (pair_antisym_VI_ClearyArtificialViscosity o k hk self_alpha self_factor acc acc' (p i) (p j) (hm i) (hm j)).1)
+      (fun i j acc acc' => (pair_antisym_VI_ClearyArtificialViscosity o k hk self_alpha self_factor acc acc' (p i) (p j) (hm i) (hm j)).2.1)
       (fun i j acc => (central_VI_ClearyArtificialViscosity o k hk self_alpha self_factor acc (p i) (p j)).1)
   · exact angular_momentum_of_pair (fun i => (p i).m) (fun i => (p i).y) (fun i => (p i).z) nbrs hnd hsymm
       (fun i acc j => pair_VI_ClearyArtificialViscosity o k self_alpha self_factor acc (p i) (p j)) (fun s => s.d_av) (fun s => s.d_aw) init
       (fun i => (hinit i).2.1) (fun i => (hinit i).2.2)
       (fun i j acc acc' => (additive_VI_ClearyArtificialViscosity o k self_alpha self_factor acc acc' (p i) (p j)).2.1)
       (fun i j acc acc' => (additive_VI_ClearyArtificialViscosity o k self_alpha self_factor acc acc' (p i) (p j)).2.2)
-      (fun i j acc acc' => (pair_antisym_VI_ClearyArtificialViscosity o k hk self_alpha self_factor acc acc' (p i) (p j)).2.1)
-      (fun i j acc acc' => (pair_antisym_VI_ClearyArtificialViscosity o k hk self_alpha self_factor acc acc' (p i) (p j)).2.2)
+      (fun i j acc acc' => (pair_antisym_VI_ClearyArtificialViscosity o k hk self_alpha self_factor acc acc' (p i) (p j) (hm i) (hm j)).2.1)
+      (fun i j acc acc' => (pair_antisym_VI_ClearyArtificialViscosity o k hk self_alpha self_factor acc acc' (p i) (p j) (hm i) (hm j)).2.2)
       (fun i j acc => (central_VI_ClearyArtificialViscosity o k hk self_alpha self_factor acc (p i) (p j)).2.1)
   · exact angular_momentum_of_pair (fun i => (p i).m) (fun i => (p i).z) (fun i => (p i).x) nbrs hnd hsymm
       (fun i acc j => pair_VI_ClearyArtificialViscosity o k self_alpha self_factor acc (p i) (p j)) (fun s => s.d_aw) (fun s => s.d_au) init
       (fun i => (hinit i).2.2) (fun i => (hinit i).1)
       (fun i j acc acc' => (additive_VI_ClearyArtificialViscosity o k self_alpha self_factor acc acc' (p i) (p j)).2.2)
       (fun i j acc acc' => (additive_VI_ClearyArtificialViscosity o k self_alpha self_factor acc acc' (p i) (p j)).1)
-      (fun i j acc acc' => (pair_antisym_VI_ClearyArtificialViscosity o k hk self_alpha self_factor acc acc' (p i) (p j)).2.2)
-      (fun i j acc acc' => (pair_antisym_VI_ClearyArtificialViscosity o k hk self_alpha self_factor acc acc' (p i) (p j)).1)
+      (fun i j acc acc' => (pair_antisym_VI_ClearyArtificialViscosity o k hk self_alpha self_factor acc acc' (p i) (p j) (hm i) (hm j)).2.2)
+      (fun i j acc acc' => (pair_antisym_VI_ClearyArtificialViscosity o k hk self_alpha self_factor acc acc' (p i) (p j) (hm i) (hm j)).1)
       (fun i j acc => (central_VI_ClearyArtificialViscosity o k hk self_alpha self_factor acc (p i) (p j)).2.2)
 
 end VI_ClearyArtificialViscosity
@@ -1326,8 +1336,8 @@ theorem additive_VI_LaminarViscosityDeltaSPH (acc acc' : Out_VI_LaminarViscosity
     c09_norm
     c09_close
 
-/-- `m_a · contrib(a, b) = −(m_b · contrib(b, a))`, component by component -/
 include hk in
+/-- `m_a · contrib(a, b) = −(m_b · contrib(b, a))`, component by component -/
 theorem pair_antisym_VI_LaminarViscosityDeltaSPH (acc acc' : Out_VI_LaminarViscosityDeltaSPH K) (a b : P K) :
     a.m * ((pair_VI_LaminarViscosityDeltaSPH o k self_dim self_nu self_rho0 acc a b).d_au - acc.d_au) = -(b.m * ((pair_VI_LaminarViscosityDeltaSPH o k self_dim self_nu self_rho0 acc' b a).d_au - acc'.d_au)) ∧
     a.m * ((pair_VI_LaminarViscosityDeltaSPH o k self_dim self_nu self_rho0 acc a b).d_av - acc.d_av) = -(b.m * ((pair_VI_LaminarViscosityDeltaSPH o k self_dim self_nu self_rho0 acc' b a).d_av - acc'.d_av)) ∧
@@ -1340,8 +1350,8 @@ theorem pair_antisym_VI_LaminarViscosityDeltaSPH (acc acc' : Out_VI_LaminarVisco
     c09_norm
     c09_close
 
-/-- the pair contribution is parallel to the separation `x_a − x_b` (cross product zero) -/
 include hk in
+/-- the pair contribution is parallel to the separation `x_a − x_b` (cross product zero) -/
 theorem central_VI_LaminarViscosityDeltaSPH (acc : Out_VI_LaminarViscosityDeltaSPH K) (a b : P K) :
     (a.x - b.x) * ((pair_VI_LaminarViscosityDeltaSPH o k self_dim self_nu self_rho0 acc a b).d_av - acc.d_av) = (a.y - b.y) * ((pair_VI_LaminarViscosityDeltaSPH o k self_dim self_nu self_rho0 acc a b).d_au - acc.d_au) ∧
     (a.y - b.y) * ((pair_VI_LaminarViscosityDeltaSPH o k self_dim self_nu self_rho0 acc a b).d_aw - acc.d_aw) = (a.z - b.z) * ((pair_VI_LaminarViscosityDeltaSPH o k self_dim self_nu self_rho0 acc a b).d_av - acc.d_av) ∧
@@ -1354,9 +1364,9 @@ theorem central_VI_LaminarViscosityDeltaSPH (acc : Out_VI_LaminarViscosityDeltaS
     c09_norm
     c09_close
 
+include hk in
 /-- closed system: evaluating the equation for every particle over a symmetric neighbour relation
 gives `Σ m a = 0` -/
-include hk in
 theorem linear_momentum_VI_LaminarViscosityDeltaSPH {ι : Type} [Fintype ι] [DecidableEq ι] (p : ι → P K)
     (nbrs : ι → List ι) (hnd : ∀ i, (nbrs i).Nodup) (hsymm : ∀ i j, j ∈ nbrs i → i ∈ nbrs j)
     (init : ι → Out_VI_LaminarViscosityDeltaSPH K) (hinit : ∀ i, (init i).d_au = 0 ∧ (init i).d_av = 0 ∧ (init i).d_aw = 0) :
@@ -1377,8 +1387,8 @@ theorem linear_momentum_VI_LaminarViscosityDeltaSPH {ι : Type} [Fintype ι] [De
       (fun i j acc acc' => (additive_VI_LaminarViscosityDeltaSPH o k self_dim self_nu self_rho0 acc acc' (p i) (p j)).2.2)
       (fun i j acc acc' => (pair_antisym_VI_LaminarViscosityDeltaSPH o k hk self_dim self_nu self_rho0 acc acc' (p i) (p j)).2.2)
 
-/-- closed system: `Σ m x × a = 0` (three components) -/
 include hk in
+/-- closed system: `Σ m x × a = 0` (three components) -/
 theorem angular_momentum_VI_LaminarViscosityDeltaSPH {ι : Type} [Fintype ι] [DecidableEq ι] (p : ι → P K)
     (nbrs : ι → List ι) (hnd : ∀ i, (nbrs i).Nodup) (hsymm : ∀ i j, j ∈ nbrs i → i ∈ nbrs j)
     (init : ι → Out_VI_LaminarViscosityDeltaSPH K) (hinit : ∀ i, (init i).d_au = 0 ∧ (init i).d_av = 0 ∧ (init i).d_aw = 0) :
@@ -1429,8 +1439,8 @@ theorem additive_GD_Monaghan92Accelerations (acc acc' : Out_GD_Monaghan92Acceler
     c09_norm
     c09_close
 
-/-- `m_a · contrib(a, b) = −(m_b · contrib(b, a))`, component by component -/
 include hk in
+/-- `m_a · contrib(a, b) = −(m_b · contrib(b, a))`, component by component -/
 theorem pair_antisym_GD_Monaghan92Accelerations (acc acc' : Out_GD_Monaghan92Accelerations K) (a b : P K) :
     a.m * ((pair_GD_Monaghan92Accelerations o k self_alpha self_beta acc a b).d_au - acc.d_au) = -(b.m * ((pair_GD_Monaghan92Accelerations o k self_alpha self_beta acc' b a).d_au - acc'.d_au)) ∧
     a.m * ((pair_GD_Monaghan92Accelerations o k self_alpha self_beta acc a b).d_av - acc.d_av) = -(b.m * ((pair_GD_Monaghan92Accelerations o k self_alpha self_beta acc' b a).d_av - acc'.d_av)) ∧
@@ -1443,8 +1453,8 @@ theorem pair_antisym_GD_Monaghan92Accelerations (acc acc' : Out_GD_Monaghan92Acc
     c09_norm
     c09_close
 
-/-- the pair contribution is parallel to the separation `x_a − x_b` (cross product zero) -/
 include hk in
+/-- the pair contribution is parallel to the separation `x_a − x_b` (cross product zero) -/
 theorem central_GD_Monaghan92Accelerations (acc : Out_GD_Monaghan92Accelerations K) (a b : P K) :
     (a.x - b.x) * ((pair_GD_Monaghan92Accelerations o k self_alpha self_beta acc a b).d_av - acc.d_av) = (a.y - b.y) * ((pair_GD_Monaghan92Accelerations o k self_alpha self_beta acc a b).d_au - acc.d_au) ∧
     (a.y - b.y) * ((pair_GD_Monaghan92Accelerations o k self_alpha self_beta acc a b).d_aw - acc.d_aw) = (a.z - b.z) * ((pair_GD_Monaghan92Accelerations o k self_alpha self_beta acc a b).d_av - acc.d_av) ∧
@@ -1457,9 +1467,9 @@ theorem central_GD_Monaghan92Accelerations (acc : Out_GD_Monaghan92Accelerations
     c09_norm
     c09_close
 
+include hk in
 /-- closed system: evaluating the equation for every particle over a symmetric neighbour relation
 gives `Σ m a = 0` -/
-include hk in
 theorem linear_momentum_GD_Monaghan92Accelerations {ι : Type} [Fintype ι] [DecidableEq ι] (p : ι → P K)
     (nbrs : ι → List ι) (hnd : ∀ i, (nbrs i).Nodup) (hsymm : ∀ i j, j ∈ nbrs i → i ∈ nbrs j)
     (init : ι → Out_GD_Monaghan92Accelerations K) (hinit : ∀ i, (init i).d_au = 0 ∧ (init i).d_av = 0 ∧ (init i).d_aw = 0) :
@@ -1480,8 +1490,8 @@ theorem linear_momentum_GD_Monaghan92Accelerations {ι : Type} [Fintype ι] [Dec
       (fun i j acc acc' => (additive_GD_Monaghan92Accelerations o k self_alpha self_beta acc acc' (p i) (p j)).2.2)
       (fun i j acc acc' => (pair_antisym_GD_Monaghan92Accelerations o k hk self_alpha self_beta acc acc' (p i) (p j)).2.2)
 
-/-- closed system: `Σ m x × a = 0` (three components) -/
 include hk in
+/-- closed system: `Σ m x × a = 0` (three components) -/
 theorem angular_momentum_GD_Monaghan92Accelerations {ι : Type} [Fintype ι] [DecidableEq ι] (p : ι → P K)
     (nbrs : ι → List ι) (hnd : ∀ i, (nbrs i).Nodup) (hsymm : ∀ i j, j ∈ nbrs i → i ∈ nbrs j)
     (init : ι → Out_GD_Monaghan92Accelerations K) (hinit : ∀ i, (init i).d_au = 0 ∧ (init i).d_av = 0 ∧ (init i).d_aw = 0) :
@@ -1532,9 +1542,9 @@ theorem additive_GD_ADKEAccelerations (acc acc' : Out_GD_ADKEAccelerations K) (a
     c09_norm
     c09_close
 
-/-- `m_a · contrib(a, b) = −(m_b · contrib(b, a))`, component by component -/
 include hk in
-theorem pair_antisym_GD_ADKEAccelerations (acc acc' : Out_GD_ADKEAccelerations K) (a b : P K) :
+/-- `m_a · contrib(a, b) = −(m_b · contrib(b, a))`, component by component (the body divides by the destination mass: masses non-zero) -/
+theorem pair_antisym_GD_ADKEAccelerations (acc acc' : Out_GD_ADKEAccelerations K) (a b : P K) (ha : a.m ≠ 0) (hb : b.m ≠ 0) :
     a.m * ((pair_GD_ADKEAccelerations o k self_alpha self_beta self_g1 self_g2 acc a b).d_au - acc.d_au) = -(b.m * ((pair_GD_ADKEAccelerations o k self_alpha self_beta self_g1 self_g2 acc' b a).d_au - acc'.d_au)) ∧
     a.m * ((pair_GD_ADKEAccelerations o k self_alpha self_beta self_g1 self_g2 acc a b).d_av - acc.d_av) = -(b.m * ((pair_GD_ADKEAccelerations o k self_alpha self_beta self_g1 self_g2 acc' b a).d_av - acc'.d_av)) ∧
     a.m * ((pair_GD_ADKEAccelerations o k self_alpha self_beta self_g1 self_g2 acc a b).d_aw - acc.d_aw) = -(b.m * ((pair_GD_ADKEAccelerations o k self_alpha self_beta self_g1 self_g2 acc' b a).d_aw - acc'.d_aw)) := by
@@ -1544,10 +1554,10 @@ theorem pair_antisym_GD_ADKEAccelerations (acc acc' : Out_GD_ADKEAccelerations K
     c09_atoms o k a b
     simp only [loop_GD_ADKEAccelerations]
     c09_norm
-    c09_close
+    c09_closeF
 
-/-- the pair contribution is parallel to the separation `x_a − x_b` (cross product zero) -/
 include hk in
+/-- the pair contribution is parallel to the separation `x_a − x_b` (cross product zero) -/
 theorem central_GD_ADKEAccelerations (acc : Out_GD_ADKEAccelerations K) (a b : P K) :
     (a.x - b.x) * ((pair_GD_ADKEAccelerations o k self_alpha self_beta self_g1 self_g2 acc a b).d_av - acc.d_av) = (a.y - b.y) * ((pair_GD_ADKEAccelerations o k self_alpha self_beta self_g1 self_g2 acc a b).d_au - acc.d_au) ∧
     (a.y - b.y) * ((pair_GD_ADKEAccelerations o k self_alpha self_beta self_g1 self_g2 acc a b).d_aw - acc.d_aw) = (a.z - b.z) * ((pair_GD_ADKEAccelerations o k self_alpha self_beta self_g1 self_g2 acc a b).d_av - acc.d_av) ∧
@@ -1560,12 +1570,12 @@ theorem central_GD_ADKEAccelerations (acc : Out_GD_ADKEAccelerations K) (a b : P
     c09_norm
     c09_close
 
+include hk in
 /-- closed system: evaluating the equation for every particle over a symmetric neighbour relation
 gives `Σ m a = 0` -/
-include hk in
 theorem linear_momentum_GD_ADKEAccelerations {ι : Type} [Fintype ι] [DecidableEq ι] (p : ι → P K)
     (nbrs : ι → List ι) (hnd : ∀ i, (nbrs i).Nodup) (hsymm : ∀ i j, j ∈ nbrs i → i ∈ nbrs j)
-    (init : ι → Out_GD_ADKEAccelerations K) (hinit : ∀ i, (init i).d_au = 0 ∧ (init i).d_av = 0 ∧ (init i).d_aw = 0) :
+    (init : ι → Out_GD_ADKEAccelerations K) (hinit : ∀ i, (init i).d_au = 0 ∧ (init i).d_av = 0 ∧ (init i).d_aw = 0) (hm : ∀ i, (p i).m ≠ 0) :
     ∑ i, (p i).m * ((nbrs i).foldl (fun acc j => pair_GD_ADKEAccelerations o k self_alpha self_beta self_g1 self_g2 acc (p i) (p j)) (init i)).d_au = 0 ∧
     ∑ i, (p i).m * ((nbrs i).foldl (fun acc j => pair_GD_ADKEAccelerations o k self_alpha self_beta self_g1 self_g2 acc (p i) (p j)) (init i)).d_av = 0 ∧
     ∑ i, (p i).m * ((nbrs i).foldl (fun acc j => pair_GD_ADKEAccelerations o k self_alpha self_beta self_g1 self_g2 acc (p i) (p j)) (init i)).d_aw = 0 := by
@@ -1573,21 +1583,21 @@ theorem linear_momentum_GD_ADKEAccelerations {ι : Type} [Fintype ι] [Decidable
   · exact linear_momentum_of_pair (fun i => (p i).m) nbrs hnd hsymm (fun i acc j => pair_GD_ADKEAccelerations o k self_alpha self_beta self_g1 self_g2 acc (p i) (p j))
       (fun s => s.d_au) init (fun i => (hinit i).1)
       (fun i j acc acc' => (additive_GD_ADKEAccelerations o k self_alpha self_beta self_g1 self_g2 acc acc' (p i) (p j)).1)
-      (fun i j acc acc' => (pair_antisym_GD_ADKEAccelerations o k hk self_alpha self_beta self_g1 self_g2 acc acc' (p i) (p j)).1)
+      (fun i j acc acc' => (pair_antisym_GD_ADKEAccelerations o k hk self_alpha self_beta self_g1 self_g2 acc acc' (p i) (p j) (hm i) (hm j)).1)
   · exact linear_momentum_of_pair (fun i => (p i).m) nbrs hnd hsymm (fun i acc j => pair_GD_ADKEAccelerations o k self_alpha self_beta self_g1 self_g2 acc (p i) (p j))
       (fun s => s.d_av) init (fun i => (hinit i).2.1)
       (fun i j acc acc' => (additive_GD_ADKEAccelerations o k self_alpha self_beta self_g1 self_g2 acc acc' (p i) (p j)).2.1)
-      (fun i j acc acc' => (pair_antisym_GD_ADKEAccelerations o k hk self_alpha self_beta self_g1 self_g2 acc acc' (p i) (p j)).2.1)
+      (fun i j acc acc' => (pair_antisym_GD_ADKEAccelerations o k hk self_alpha self_beta self_g1 self_g2 acc acc' (p i) (p j) (hm i) (hm j)).2.1)
   · exact linear_momentum_of_pair (fun i => (p i).m) nbrs hnd hsymm (fun i acc j => pair_GD_ADKEAccelerations o k self_alpha self_beta self_g1 self_g2 acc (p i) (p j))
       (fun s => s.d_aw) init (fun i => (hinit i).2.2)
       (fun i j acc acc' => (additive_GD_ADKEAccelerations o k self_alpha self_beta self_g1 self_g2 acc acc' (p i) (p j)).2.2)
-      (fun i j acc acc' => (pair_antisym_GD_ADKEAccelerations o k hk self_alpha self_beta self_g1 self_g2 acc acc' (p i) (p j)).2.2)
+      (fun i j acc acc' => (pair_antisym_GD_ADKEAccelerations o k hk self_alpha self_beta self_g1 self_g2 acc acc' (p i) (p j) (hm i) (hm j)).2.2)
 
-/-- closed system: `Σ m x × a = 0` (three components) -/
 include hk in
+/-- closed system: `Σ m x × a = 0` (three components) -/
 theorem angular_momentum_GD_ADKEAccelerations {ι : Type} [Fintype ι] [DecidableEq ι] (p : ι → P K)
     (nbrs : ι → List ι) (hnd : ∀ i, (nbrs i).Nodup) (hsymm : ∀ i j, j ∈ nbrs i → i ∈ nbrs j)
-    (init : ι → Out_GD_ADKEAccelerations K) (hinit : ∀ i, (init i).d_au = 0 ∧ (init i).d_av = 0 ∧ (init i).d_aw = 0) :
+    (init : ι → Out_GD_ADKEAccelerations K) (hinit : ∀ i, (init i).d_au = 0 ∧ (init i).d_av = 0 ∧ (init i).d_aw = 0) (hm : ∀ i, (p i).m ≠ 0) :
     (∑ i, (p i).m * ((p i).x * ((nbrs i).foldl (fun acc j => pair_GD_ADKEAccelerations o k self_alpha self_beta self_g1 self_g2 acc (p i) (p j)) (init i)).d_av - (p i).y * ((nbrs i).foldl (fun acc j => pair_GD_ADKEAccelerations o k self_alpha self_beta self_g1 self_g2 acc (p i) (p j)) (init i)).d_au) = 0) ∧
     (∑ i, (p i).m * ((p i).y * ((nbrs i).foldl (fun acc j => pair_GD_ADKEAccelerations o k self_alpha self_beta self_g1 self_g2 acc (p i) (p j)) (init i)).d_aw - (p i).z * ((nbrs i).foldl (fun acc j => pair_GD_ADKEAccelerations o k self_alpha self_beta self_g1 self_g2 acc (p i) (p j)) (init i)).d_av) = 0) ∧
     (∑ i, (p i).m * ((p i).z * ((nbrs i).foldl (fun acc j => pair_GD_ADKEAccelerations o k self_alpha self_beta self_g1 self_g2 acc (p i) (p j)) (init i)).d_au - (p i).x * ((nbrs i).foldl (fun acc j => pair_GD_ADKEAccelerations o k self_alpha self_beta self_g1 self_g2 acc (p i) (p j)) (init i)).d_aw) = 0) := by
@@ -1597,24 +1607,24 @@ theorem angular_momentum_GD_ADKEAccelerations {ι : Type} [Fintype ι] [Decidabl
       (fun i => (hinit i).1) (fun i => (hinit i).2.1)
       (fun i j acc acc' => (additive_GD_ADKEAccelerations o k self_alpha self_beta self_g1 self_g2 acc acc' (p i) (p j)).1)
       (fun i j acc acc' => (additive_GD_ADKEAccelerations o k self_alpha self_beta self_g1 self_g2 acc acc' (p i) (p j)).2.1)
-      (fun i j acc acc' => (pair_antisym_GD_ADKEAccelerations o k hk self_alpha self_beta self_g1 self_g2 acc acc' (p i) (p j)).1)
-      (fun i j acc acc' => (pair_antisym_GD_ADKEAccelerations o k hk self_alpha self_beta self_g1 self_g2 acc acc' (p i) (p j)).2.1)
+      (fun i j acc acc' => (pair_antisym_GD_ADKEAccelerations o k hk self_alpha self_beta self_g1 self_g2 acc acc' (p i) (p j) (hm i) (hm j)).1)
+      (fun i j acc acc' => (pair_antisym_GD_ADKEAccelerations o k hk self_alpha self_beta self_g1 self_g2 acc acc' (p i) (p j) (hm i) (hm j)).2.1)
       (fun i j acc => (central_GD_ADKEAccelerations o k hk self_alpha self_beta self_g1 self_g2 acc (p i) (p j)).1)
   · exact angular_momentum_of_pair (fun i => (p i).m) (fun i => (p i).y) (fun i => (p i).z) nbrs hnd hsymm
       (fun i acc j => pair_GD_ADKEAccelerations o k self_alpha self_beta self_g1 self_g2 acc (p i) (p j)) (fun s => s.d_av) (fun s => s.d_aw) init
       (fun i => (hinit i).2.1) (fun i => (hinit i).2.2)
       (fun i j acc acc' => (additive_GD_ADKEAccelerations o k self_alpha self_beta self_g1 self_g2 acc acc' (p i) (p j)).2.1)
       (fun i j acc acc' => (additive_GD_ADKEAccelerations o k self_alpha self_beta self_g1 self_g2 acc acc' (p i) (p j)).2.2)
-      (fun i j acc acc' => (pair_antisym_GD_ADKEAccelerations o k hk self_alpha self_beta self_g1 self_g2 acc acc' (p i) (p j)).2.1)
-      (fun i j acc acc' => (pair_antisym_GD_ADKEAccelerations o k hk self_alpha self_beta self_g1 self_g2 acc acc' (p i) (p j)).2.2)
+      (fun i j acc acc' => (pair_antisym_GD_ADKEAccelerations o k hk self_alpha self_beta self_g1 self_g2 acc acc' (p i) (p j) (hm i) (hm j)).2.1)
+      (fun i j acc acc' => (pair_antisym_GD_ADKEAccelerations o k hk self_alpha self_beta self_g1 self_g2 acc acc' (p i) (p j) (hm i) (hm j)).2.2)
       (fun i j acc => (central_GD_ADKEAccelerations o k hk self_alpha self_beta self_g1 self_g2 acc (p i) (p j)).2.1)
   · exact angular_momentum_of_pair (fun i => (p i).m) (fun i => (p i).z) (fun i => (p i).x) nbrs hnd hsymm
       (fun i acc j => pair_GD_ADKEAccelerations o k self_alpha self_beta self_g1 self_g2 acc (p i) (p j)) (fun s => s.d_aw) (fun s => s.d_au) init
       (fun i => (hinit i).2.2) (fun i => (hinit i).1)
       (fun i j acc acc' => (additive_GD_ADKEAccelerations o k self_alpha self_beta self_g1 self_g2 acc acc' (p i) (p j)).2.2)
       (fun i j acc acc' => (additive_GD_ADKEAccelerations o k self_alpha self_beta self_g1 self_g2 acc acc' (p i) (p j)).1)
-      (fun i j acc acc' => (pair_antisym_GD_ADKEAccelerations o k hk self_alpha self_beta self_g1 self_g2 acc acc' (p i) (p j)).2.2)
-      (fun i j acc acc' => (pair_antisym_GD_ADKEAccelerations o k hk self_alpha self_beta self_g1 self_g2 acc acc' (p i) (p j)).1)
+      (fun i j acc acc' => (pair_antisym_GD_ADKEAccelerations o k hk self_alpha self_beta self_g1 self_g2 acc acc' (p i) (p j) (hm i) (hm j)).2.2)
+      (fun i j acc acc' => (pair_antisym_GD_ADKEAccelerations o k hk self_alpha self_beta self_g1 self_g2 acc acc' (p i) (p j) (hm i) (hm j)).1)
       (fun i j acc => (central_GD_ADKEAccelerations o k hk self_alpha self_beta self_g1 self_g2 acc (p i) (p j)).2.2)
 
 end GD_ADKEAccelerations
@@ -1635,9 +1645,9 @@ theorem additive_GD_MPMAccelerations (acc acc' : Out_GD_MPMAccelerations K) (a b
     c09_norm
     c09_close
 
-/-- `m_a · contrib(a, b) = −(m_b · contrib(b, a))`, component by component -/
 include hk in
-theorem pair_antisym_GD_MPMAccelerations (acc acc' : Out_GD_MPMAccelerations K) (a b : P K) :
+/-- `m_a · contrib(a, b) = −(m_b · contrib(b, a))`, component by component (the body divides by the destination mass: masses non-zero) -/
+theorem pair_antisym_GD_MPMAccelerations (acc acc' : Out_GD_MPMAccelerations K) (a b : P K) (ha : a.m ≠ 0) (hb : b.m ≠ 0) :
     a.m * ((pair_GD_MPMAccelerations o k self_beta acc a b).d_au - acc.d_au) = -(b.m * ((pair_GD_MPMAccelerations o k self_beta acc' b a).d_au - acc'.d_au)) ∧
     a.m * ((pair_GD_MPMAccelerations o k self_beta acc a b).d_av - acc.d_av) = -(b.m * ((pair_GD_MPMAccelerations o k self_beta acc' b a).d_av - acc'.d_av)) ∧
     a.m * ((pair_GD_MPMAccelerations o k self_beta acc a b).d_aw - acc.d_aw) = -(b.m * ((pair_GD_MPMAccelerations o k self_beta acc' b a).d_aw - acc'.d_aw)) := by
@@ -1647,10 +1657,10 @@ theorem pair_antisym_GD_MPMAccelerations (acc acc' : Out_GD_MPMAccelerations K) 
     c09_atoms o k a b
     simp only [loop_GD_MPMAccelerations]
     c09_norm
-    c09_close
+    c09_closeF
 
-/-- the pair contribution is parallel to the separation `x_a − x_b` (cross product zero) -/
 include hk in
+/-- the pair contribution is parallel to the separation `x_a − x_b` (cross product zero) -/
 theorem central_GD_MPMAccelerations (acc : Out_GD_MPMAccelerations K) (a b : P K) :
     (a.x - b.x) * ((pair_GD_MPMAccelerations o k self_beta acc a b).d_av - acc.d_av) = (a.y - b.y) * ((pair_GD_MPMAccelerations o k self_beta acc a b).d_au - acc.d_au) ∧
     (a.y - b.y) * ((pair_GD_MPMAccelerations o k self_beta acc a b).d_aw - acc.d_aw) = (a.z - b.z) * ((pair_GD_MPMAccelerations o k self_beta acc a b).d_av - acc.d_av) ∧
@@ -1663,12 +1673,12 @@ theorem central_GD_MPMAccelerations (acc : Out_GD_MPMAccelerations K) (a b : P K
     c09_norm
     c09_close
 
+include hk in
 /-- closed system: evaluating the equation for every particle over a symmetric neighbour relation
 gives `Σ m a = 0` -/
-include hk in
 theorem linear_momentum_GD_MPMAccelerations {ι : Type} [Fintype ι] [DecidableEq ι] (p : ι → P K)
     (nbrs : ι → List ι) (hnd : ∀ i, (nbrs i).Nodup) (hsymm : ∀ i j, j ∈ nbrs i → i ∈ nbrs j)
-    (init : ι → Out_GD_MPMAccelerations K) (hinit : ∀ i, (init i).d_au = 0 ∧ (init i).d_av = 0 ∧ (init i).d_aw = 0) :
+    (init : ι → Out_GD_MPMAccelerations K) (hinit : ∀ i, (init i).d_au = 0 ∧ (init i).d_av = 0 ∧ (init i).d_aw = 0) (hm : ∀ i, (p i).m ≠ 0) :
     ∑ i, (p i).m * ((nbrs i).foldl (fun acc j => pair_GD_MPMAccelerations o k self_beta acc (p i) (p j)) (init i)).d_au = 0 ∧
     ∑ i, (p i).m * ((nbrs i).foldl (fun acc j => pair_GD_MPMAccelerations o k self_beta acc (p i) (p j)) (init i)).d_av = 0 ∧
     ∑ i, (p i).m * ((nbrs i).foldl (fun acc j => pair_GD_MPMAccelerations o k self_beta acc (p i) (p j)) (init i)).d_aw = 0 := by
@@ -1676,21 +1686,21 @@ theorem linear_momentum_GD_MPMAccelerations {ι : Type} [Fintype ι] [DecidableE
   · exact linear_momentum_of_pair (fun i => (p i).m) nbrs hnd hsymm (fun i acc j => pair_GD_MPMAccelerations o k self_beta acc (p i) (p j))
       (fun s => s.d_au) init (fun i => (hinit i).1)
       (fun i j acc acc' => (additive_GD_MPMAccelerations o k self_beta acc acc' (p i) (p j)).1)
-      (fun i j acc acc' => (pair_antisym_GD_MPMAccelerations o k hk self_beta acc acc' (p i) (p j)).1)
+      (fun i j acc acc' => (pair_antisym_GD_MPMAccelerations o k hk self_beta acc acc' (p i) (p j) (hm i) (hm j)).1)
   · exact linear_momentum_of_pair (fun i => (p i).m) nbrs hnd hsymm (fun i acc j => pair_GD_MPMAccelerations o k self_beta acc (p i) (p j))
       (fun s => s.d_av) init (fun i => (hinit i).2.1)
       (fun i j acc acc' => (additive_GD_MPMAccelerations o k self_beta acc acc' (p i) (p j)).2.1)
-      (fun i j acc acc' => (pair_antisym_GD_MPMAccelerations o k hk self_beta acc acc' (p i) (p j)).2.1)
+      (fun i j acc acc' => (pair_antisym_GD_MPMAccelerations o k hk self_beta acc acc' (p i) (p j) (hm i) (hm j)).2.1)
   · exact linear_momentum_of_pair (fun i => (p i).m) nbrs hnd hsymm (fun i acc j => pair_GD_MPMAccelerations o k self_beta acc (p i) (p j))
       (fun s => s.d_aw) init (fun i => (hinit i).2.2)
       (fun i j acc acc' => (additive_GD_MPMAccelerations o k self_beta acc acc' (p i) (p j)).2.2)
-      (fun i j acc acc' => (pair_antisym_GD_MPMAccelerations o k hk self_beta acc acc' (p i) (p j)).2.2)
+      (fun i j acc acc' => (pair_antisym_GD_MPMAccelerations o k hk self_beta acc acc' (p i) (p j) (hm i) (hm j)).2.2)
 
-/-- closed system: `Σ m x × a = 0` (three components) -/
 include hk in
+/-- closed system: `Σ m x × a = 0` (three components) -/
 theorem angular_momentum_GD_MPMAccelerations {ι : Type} [Fintype ι] [DecidableEq ι] (p : ι → P K)
     (nbrs : ι → List ι) (hnd : ∀ i, (nbrs i).Nodup) (hsymm : ∀ i j, j ∈ nbrs i → i ∈ nbrs j)
-    (init : ι → Out_GD_MPMAccelerations K) (hinit : ∀ i, (init i).d_au = 0 ∧ (init i).d_av = 0 ∧ (init i).d_aw = 0) :
+    (init : ι → Out_GD_MPMAccelerations K) (hinit : ∀ i, (init i).d_au = 0 ∧ (init i).d_av = 0 ∧ (init i).d_aw = 0) (hm : ∀ i, (p i).m ≠ 0) :
     (∑ i, (p i).m * ((p i).x * ((nbrs i).foldl (fun acc j => pair_GD_MPMAccelerations o k self_beta acc (p i) (p j)) (init i)).d_av - (p i).y * ((nbrs i).foldl (fun acc j => pair_GD_MPMAccelerations o k self_beta acc (p i) (p j)) (init i)).d_au) = 0) ∧
     (∑ i, (p i).m * ((p i).y * ((nbrs i).foldl (fun acc j => pair_GD_MPMAccelerations o k self_beta acc (p i) (p j)) (init i)).d_aw - (p i).z * ((nbrs i).foldl (fun acc j => pair_GD_MPMAccelerations o k self_beta acc (p i) (p j)) (init i)).d_av) = 0) ∧
     (∑ i, (p i).m * ((p i).z * ((nbrs i).foldl (fun acc j => pair_GD_MPMAccelerations o k self_beta acc (p i) (p j)) (init i)).d_au - (p i).x * ((nbrs i).foldl (fun acc j => pair_GD_MPMAccelerations o k self_beta acc (p i) (p j)) (init i)).d_aw) = 0) := by
@@ -1700,24 +1710,24 @@ theorem angular_momentum_GD_MPMAccelerations {ι : Type} [Fintype ι] [Decidable
       (fun i => (hinit i).1) (fun i => (hinit i).2.1)
       (fun i j acc acc' => (additive_GD_MPMAccelerations o k self_beta acc acc' (p i) (p j)).1)
       (fun i j acc acc' => (additive_GD_MPMAccelerations o k self_beta acc acc' (p i) (p j)).2.1)
-      (fun i j acc acc' => (pair_antisym_GD_MPMAccelerations o k hk self_beta acc acc' (p i) (p j)).1)
-      (fun i j acc acc' => (pair_antisym_GD_MPMAccelerations o k hk self_beta acc acc' (p i) (p j)).2.1)
+      (fun i j acc acc' => (pair_antisym_GD_MPMAccelerations o k hk self_beta acc acc' (p i) (p j) (hm i) (hm j)).1)
+      (fun i j acc acc' => (pair_antisym_GD_MPMAccelerations o k hk self_beta acc acc' (p i) (p j) (hm i) (hm j)).2.1)
       (fun i j acc => (central_GD_MPMAccelerations o k hk self_beta acc (p i) (p j)).1)
   · exact angular_momentum_of_pair (fun i => (p i).m) (fun i => (p i).y) (fun i => (p i).z) nbrs hnd hsymm
       (fun i acc j => pair_GD_MPMAccelerations o k self_beta acc (p i) (p j)) (fun s => s.d_av) (fun s => s.d_aw) init
       (fun i => (hinit i).2.1) (fun i => (hinit i).2.2)
       (fun i j acc acc' => (additive_GD_MPMAccelerations o k self_beta acc acc' (p i) (p j)).2.1)
       (fun i j acc acc' => (additive_GD_MPMAccelerations o k self_beta acc acc' (p i) (p j)).2.2)
-      (fun i j acc acc' => (pair_antisym_GD_MPMAccelerations o k hk self_beta acc acc' (p i) (p j)).2.1)
-      (fun i j acc acc' => (pair_antisym_GD_MPMAccelerations o k hk self_beta acc acc' (p i) (p j)).2.2)
+      (fun i j acc acc' => (pair_antisym_GD_MPMAccelerations o k hk self_beta acc acc' (p i) (p j) (hm i) (hm j)).2.1)
+      (fun i j acc acc' => (pair_antisym_GD_MPMAccelerations o k hk self_beta acc acc' (p i) (p j) (hm i) (hm j)).2.2)
       (fun i j acc => (central_GD_MPMAccelerations o k hk self_beta acc (p i) (p j)).2.1)
   · exact angular_momentum_of_pair (fun i => (p i).m) (fun i => (p i).z) (fun i => (p i).x) nbrs hnd hsymm
       (fun i acc j => pair_GD_MPMAccelerations o k self_beta acc (p i) (p j)) (fun s => s.d_aw) (fun s => s.d_au) init
       (fun i => (hinit i).2.2) (fun i => (hinit i).1)
       (fun i j acc acc' => (additive_GD_MPMAccelerations o k self_beta acc acc' (p i) (p j)).2.2)
       (fun i j acc acc' => (additive_GD_MPMAccelerations o k self_beta acc acc' (p i) (p j)).1)
-      (fun i j acc acc' => (pair_antisym_GD_MPMAccelerations o k hk self_beta acc acc' (p i) (p j)).2.2)
-      (fun i j acc acc' => (pair_antisym_GD_MPMAccelerations o k hk self_beta acc acc' (p i) (p j)).1)
+      (fun i j acc acc' => (pair_antisym_GD_MPMAccelerations o k hk self_beta acc acc' (p i) (p j) (hm i) (hm j)).2.2)
+      (fun i j acc acc' => (pair_antisym_GD_MPMAccelerations o k hk self_beta acc acc' (p i) (p j) (hm i) (hm j)).1)
       (fun i j acc => (central_GD_MPMAccelerations o k hk self_beta acc (p i) (p j)).2.2)
 
 end GD_MPMAccelerations
@@ -1738,9 +1748,9 @@ theorem additive_SM_MomentumEquationWithStress (acc acc' : Out_SM_MomentumEquati
     c09_norm
     c09_close
 
-/-- `m_a · contrib(a, b) = −(m_b · contrib(b, a))`, component by component -/
 include hk in
-theorem pair_antisym_SM_MomentumEquationWithStress (acc acc' : Out_SM_MomentumEquationWithStress K) (a b : P K) :
+/-- `m_a · contrib(a, b) = −(m_b · contrib(b, a))`, component by component — the array constants `wdeltap`, `n` must agree between the arrays -/
+theorem pair_antisym_SM_MomentumEquationWithStress (acc acc' : Out_SM_MomentumEquationWithStress K) (a b : P K) (hw : a.c_wdeltap = b.c_wdeltap) (hn : a.c_n = b.c_n) :
     a.m * ((pair_SM_MomentumEquationWithStress o k  acc a b).d_au - acc.d_au) = -(b.m * ((pair_SM_MomentumEquationWithStress o k  acc' b a).d_au - acc'.d_au)) ∧
     a.m * ((pair_SM_MomentumEquationWithStress o k  acc a b).d_av - acc.d_av) = -(b.m * ((pair_SM_MomentumEquationWithStress o k  acc' b a).d_av - acc'.d_av)) ∧
     a.m * ((pair_SM_MomentumEquationWithStress o k  acc a b).d_aw - acc.d_aw) = -(b.m * ((pair_SM_MomentumEquationWithStress o k  acc' b a).d_aw - acc'.d_aw)) := by
@@ -1748,16 +1758,16 @@ theorem pair_antisym_SM_MomentumEquationWithStress (acc acc' : Out_SM_MomentumEq
   · simp only [pair_SM_MomentumEquationWithStress]
     c09_swap o k a b hk
     c09_atoms o k a b
-    simp only [loop_SM_MomentumEquationWithStress]
+    simp only [loop_SM_MomentumEquationWithStress, hw, hn]
     c09_norm
     c09_close
 
+include hk in
 /-- closed system: evaluating the equation for every particle over a symmetric neighbour relation
 gives `Σ m a = 0` -/
-include hk in
 theorem linear_momentum_SM_MomentumEquationWithStress {ι : Type} [Fintype ι] [DecidableEq ι] (p : ι → P K)
     (nbrs : ι → List ι) (hnd : ∀ i, (nbrs i).Nodup) (hsymm : ∀ i j, j ∈ nbrs i → i ∈ nbrs j)
-    (init : ι → Out_SM_MomentumEquationWithStress K) (hinit : ∀ i, (init i).d_au = 0 ∧ (init i).d_av = 0 ∧ (init i).d_aw = 0) :
+    (init : ι → Out_SM_MomentumEquationWithStress K) (hinit : ∀ i, (init i).d_au = 0 ∧ (init i).d_av = 0 ∧ (init i).d_aw = 0) (hw_all : ∀ i j, (p i).c_wdeltap = (p j).c_wdeltap) (hn_all : ∀ i j, (p i).c_n = (p j).c_n) :
     ∑ i, (p i).m * ((nbrs i).foldl (fun acc j => pair_SM_MomentumEquationWithStress o k  acc (p i) (p j)) (init i)).d_au = 0 ∧
     ∑ i, (p i).m * ((nbrs i).foldl (fun acc j => pair_SM_MomentumEquationWithStress o k  acc (p i) (p j)) (init i)).d_av = 0 ∧
     ∑ i, (p i).m * ((nbrs i).foldl (fun acc j => pair_SM_MomentumEquationWithStress o k  acc (p i) (p j)) (init i)).d_aw = 0 := by
@@ -1765,16 +1775,125 @@ theorem linear_momentum_SM_MomentumEquationWithStress {ι : Type} [Fintype ι] [
   · exact linear_momentum_of_pair (fun i => (p i).m) nbrs hnd hsymm (fun i acc j => pair_SM_MomentumEquationWithStress o k  acc (p i) (p j))
       (fun s => s.d_au) init (fun i => (hinit i).1)
       (fun i j acc acc' => (additive_SM_MomentumEquationWithStress o k  acc acc' (p i) (p j)).1)
-      (fun i j acc acc' => (pair_antisym_SM_MomentumEquationWithStress o k hk  acc acc' (p i) (p j)).1)
+      (fun i j acc acc' => (pair_antisym_SM_MomentumEquationWithStress o k hk  acc acc' (p i) (p j) (hw_all i j) (hn_all i j)).1)
   · exact linear_momentum_of_pair (fun i => (p i).m) nbrs hnd hsymm (fun i acc j => pair_SM_MomentumEquationWithStress o k  acc (p i) (p j))
       (fun s => s.d_av) init (fun i => (hinit i).2.1)
       (fun i j acc acc' => (additive_SM_MomentumEquationWithStress o k  acc acc' (p i) (p j)).2.1)
-      (fun i j acc acc' => (pair_antisym_SM_MomentumEquationWithStress o k hk  acc acc' (p i) (p j)).2.1)
+      (fun i j acc acc' => (pair_antisym_SM_MomentumEquationWithStress o k hk  acc acc' (p i) (p j) (hw_all i j) (hn_all i j)).2.1)
   · exact linear_momentum_of_pair (fun i => (p i).m) nbrs hnd hsymm (fun i acc j => pair_SM_MomentumEquationWithStress o k  acc (p i) (p j))
       (fun s => s.d_aw) init (fun i => (hinit i).2.2)
       (fun i j acc acc' => (additive_SM_MomentumEquationWithStress o k  acc acc' (p i) (p j)).2.2)
-      (fun i j acc acc' => (pair_antisym_SM_MomentumEquationWithStress o k hk  acc acc' (p i) (p j)).2.2)
+      (fun i j acc acc' => (pair_antisym_SM_MomentumEquationWithStress o k hk  acc acc' (p i) (p j) (hw_all i j) (hn_all i j)).2.2)
 
 end SM_MomentumEquationWithStress
+
+/-! ## summation density -/
+section density
+variable (o : Ops K) (k : Kern K) {w g : K → K → K} (hk : Radial k w g)
+
+theorem R2IJ_self (a : P K) : pre_R2IJ o k a a = 0 := by
+  simp only [pre_R2IJ, pre_XIJ_0, pre_XIJ_1, pre_XIJ_2]; ring
+theorem HIJ_self (a : P K) : pre_HIJ o k a a = a.h := by
+  simp only [pre_HIJ, Nat.cast_one, Nat.cast_ofNat]; ring
+
+include hk in
+/-- one step of `basic_equations.SummationDensity`: `rho += m_b W(r_ab, h_ab)` -/
+theorem step_BE_SummationDensity (acc : Out_BE_SummationDensity K) (a b : P K) :
+    (pair_BE_SummationDensity o k acc a b).d_rho
+      = acc.d_rho + b.m * w (pre_RIJ o k a b) (pre_HIJ o k a b) := by
+  simp only [pair_BE_SummationDensity, loop_BE_SummationDensity, pre_WIJ, hk.kernel_eq]
+
+include hk in
+/-- Summation density is at least `m_i W(0, h_i)`, hence strictly positive,
+wherever a particle sees itself (non-negative kernel, non-negative masses). -/
+theorem summation_density_pos_BE {ι : Type} (p : ι → P K) (nbrs : List ι) (i : ι) (hi : i ∈ nbrs)
+    (hm : ∀ j ∈ nbrs, 0 ≤ (p j).m) (hmi : 0 < (p i).m)
+    (hw : ∀ r h, 0 ≤ w r h) (hw0 : 0 < w (o.sqrt 0) (p i).h)
+    (init : Out_BE_SummationDensity K) (hinit : init.d_rho = 0) :
+    (p i).m * w (o.sqrt 0) (p i).h
+        ≤ (nbrs.foldl (fun acc j => pair_BE_SummationDensity o k acc (p i) (p j)) init).d_rho ∧
+    0 < (nbrs.foldl (fun acc j => pair_BE_SummationDensity o k acc (p i) (p j)) init).d_rho := by
+  have key := foldl_ge_single (fun s : Out_BE_SummationDensity K => s.d_rho)
+    (fun acc j => pair_BE_SummationDensity o k acc (p i) (p j))
+    (fun j => (p j).m * w (pre_RIJ o k (p i) (p j)) (pre_HIJ o k (p i) (p j)))
+    (fun acc j => step_BE_SummationDensity o k hk acc (p i) (p j)) nbrs init hinit
+    (fun j hj => mul_nonneg (hm j hj) (hw _ _)) i hi
+  simp only [pre_RIJ, R2IJ_self, HIJ_self] at key
+  exact ⟨key, lt_of_lt_of_le (mul_pos hmi hw0) key⟩
+
+include hk in
+/-- one step of `transport_velocity.SummationDensity`: `rho += m_a W`, `V += W` -/
+theorem step_TV_SummationDensity (acc : Out_TV_SummationDensity K) (a b : P K) :
+    (pair_TV_SummationDensity o k acc a b).d_rho
+      = acc.d_rho + a.m * w (pre_RIJ o k a b) (pre_HIJ o k a b) ∧
+    (pair_TV_SummationDensity o k acc a b).d_V
+      = acc.d_V + w (pre_RIJ o k a b) (pre_HIJ o k a b) := by
+  simp only [pair_TV_SummationDensity, loop_TV_SummationDensity, pre_WIJ, hk.kernel_eq, and_self]
+
+include hk in
+theorem summation_density_pos_TV {ι : Type} (p : ι → P K) (nbrs : List ι) (i : ι) (hi : i ∈ nbrs)
+    (hmi : 0 < (p i).m)
+    (hw : ∀ r h, 0 ≤ w r h) (hw0 : 0 < w (o.sqrt 0) (p i).h)
+    (init : Out_TV_SummationDensity K) (hinit : init.d_rho = 0 ∧ init.d_V = 0) :
+    0 < (nbrs.foldl (fun acc j => pair_TV_SummationDensity o k acc (p i) (p j)) init).d_rho ∧
+    0 < (nbrs.foldl (fun acc j => pair_TV_SummationDensity o k acc (p i) (p j)) init).d_V := by
+  have k1 := foldl_ge_single (fun s : Out_TV_SummationDensity K => s.d_rho)
+    (fun acc j => pair_TV_SummationDensity o k acc (p i) (p j))
+    (fun j => (p i).m * w (pre_RIJ o k (p i) (p j)) (pre_HIJ o k (p i) (p j)))
+    (fun acc j => (step_TV_SummationDensity o k hk acc (p i) (p j)).1) nbrs init hinit.1
+    (fun j hj => mul_nonneg hmi.le (hw _ _)) i hi
+  have k2 := foldl_ge_single (fun s : Out_TV_SummationDensity K => s.d_V)
+    (fun acc j => pair_TV_SummationDensity o k acc (p i) (p j))
+    (fun j => w (pre_RIJ o k (p i) (p j)) (pre_HIJ o k (p i) (p j)))
+    (fun acc j => (step_TV_SummationDensity o k hk acc (p i) (p j)).2) nbrs init hinit.2
+    (fun j hj => hw _ _) i hi
+  simp only [pre_RIJ, R2IJ_self, HIJ_self] at k1 k2
+  exact ⟨lt_of_lt_of_le (mul_pos hmi hw0) k1, lt_of_lt_of_le hw0 k2⟩
+
+end density
+
+/-! ## non-vacuity and a counterexample (concrete rationals; these are examples, not the claim) -/
+section concrete
+
+/-- a concrete radial kernel over ℚ: `W = 1`, `∇W = x` -/
+def kq : Kern ℚ := ⟨fun _ _ _ _ _ => 1, fun x _ _ _ _ => x, fun _ y _ _ _ => y, fun _ _ z _ _ => z,
+  fun _ _ => 0, fun _ _ _ _ _ => 0, 1⟩
+def oq : Ops ℚ := ⟨fun x => x, fun x => |x|, fun x _ => x⟩
+theorem kq_radial : Radial kq (fun _ _ => 1) (fun _ _ => 1) :=
+  ⟨fun _ _ _ _ _ => rfl, fun _ _ _ _ _ => (one_mul _).symm, fun _ _ _ _ _ => (one_mul _).symm,
+   fun _ _ _ _ _ => (one_mul _).symm⟩
+
+def qa : P ℚ := { V := 1, alpha1 := 1, alpha2 := 1, c_n := 1, c_wdeltap := 1, cs := 1, div := 1, e := 1, h := 1, m := 1, omega := 1, p := 2, pavg := 0, r00 := 1, r01 := 1, r02 := 1, r11 := 1, r12 := 1, r22 := 1, rho := 1, s00 := 1, s01 := 1, s02 := 1, s11 := 1, s12 := 1, s22 := 1, u := 1, uhat := 1, v := 0, vhat := 1, w := 0, what := 1, x := 0, y := 0, z := 0 }
+def qb : P ℚ := { V := 1, alpha1 := 1, alpha2 := 1, c_n := 1, c_wdeltap := 1, cs := 1, div := 1, e := 1, h := 1, m := 2, omega := 1, p := 3, pavg := 5, r00 := 1, r01 := 1, r02 := 1, r11 := 1, r12 := 1, r22 := 1, rho := 2, s00 := 1, s01 := 1, s02 := 1, s11 := 1, s12 := 1, s22 := 1, u := 0, uhat := 1, v := 0, vhat := 1, w := 0, what := 1, x := 1, y := 1/2, z := 0 }
+
+/-- a two-particle closed system meeting every hypothesis of the system-level theorems -/
+def qsys : Fin 2 → P ℚ := fun i => if i = 0 then qa else qb
+def qnbrs : Fin 2 → List (Fin 2) := fun _ => [0, 1]
+example : (∀ i, (qnbrs i).Nodup) ∧ (∀ i j, j ∈ qnbrs i → i ∈ qnbrs j) ∧ (∀ i, (qsys i).m ≠ 0) := by
+  decide +kernel
+
+/-- the pair contributions are not trivially zero (approaching pair: the viscous branch is taken) -/
+example : (pair_WC_MomentumEquation oq kq 1 1 1 false ⟨0, 0, 0, 0⟩ qa qb).d_au ≠ 0 ∧
+    (pair_TV_MomentumEquationViscosity oq kq 1 ⟨0, 0, 0⟩ qa qb).d_au ≠ 0 ∧
+    (pair_GD_MPMAccelerations oq kq 2 ⟨0, 0, 0, 0, 0, 0⟩ qa qb).d_au ≠ 0 ∧
+    (pair_SM_MomentumEquationWithStress oq kq ⟨0, 0, 0⟩ qa qb).d_au ≠ 0 := by
+  decide +kernel
+
+/-- and they are antisymmetric on this instance, as `pair_antisym_WC_MomentumEquation` says -/
+example : qa.m * (pair_WC_MomentumEquation oq kq 1 1 1 false ⟨0, 0, 0, 0⟩ qa qb).d_au
+    = -(qb.m * (pair_WC_MomentumEquation oq kq 1 1 1 false ⟨0, 0, 0, 0⟩ qb qa).d_au) := by
+  decide +kernel
+
+/-- The EDAC pressure-gradient form `edac.MomentumEquationPressureGradient`
+subtracts the *destination's* average pressure: with different `pavg` on the two
+particles the pair contributions are NOT antisymmetric — it is not written in
+pair-symmetric form, and `pair_antisym_ED_MomentumEquationPressureGradient`
+needs its hypothesis. -/
+theorem ED_MomentumEquationPressureGradient_not_pair_symmetric :
+    ¬ (qa.m * (pair_ED_MomentumEquationPressureGradient oq kq 0 ⟨0, 0, 0, 0, 0, 0⟩ qa qb).d_au
+      = -(qb.m * (pair_ED_MomentumEquationPressureGradient oq kq 0 ⟨0, 0, 0, 0, 0, 0⟩ qb qa).d_au)) := by
+  decide +kernel
+
+end concrete
 
 end PysphVerif.C09
